@@ -12,788 +12,221 @@ Definition show_fres (r : fres) : string :=
   end.
 Definition check (rs : list rune) : string := digest (show_fres (format_res rs)).
 Definition full (rs : list rune) : string := show_fres (format_res rs).
-Eval vm_compute in ("<<<M4025>>>" ++ check (runes_of_ascii "
-options
-
-    { // c1a
-
-// c1b
-    	StringPrefixLenType =
-
-    // c3
-		u16	;  // c5
-
-  ArrayPrefixLenType
-    = 
-	    // c7
-    u8
-	;
-
-    FixedStringPadFromLeft// c10a
-    // c10b
-  =
-        // c11
-
-true	// c12
-      ;	// c13a
-// c13b
-    FixedStringPadChar // c14
-	  = 	 // c15
-    	' '	;	// c17
-  }	// c18a
-  // c18b
-  packet// c19
-
-  Quote 
-// c20
-	{ 
-
-// c21
-      int64 
-    // c22
-	  OrderId  // c23a
-
-// c23b
-	,
-char[] // c25
-      Ref 	 // c26a
-
-// c26b
-    ,// c27
-	@leftPad
-
-( // c29a
-	// c29b
-    	'0' 
-      // c30
-) 	 // c31a
-    	// c31b
-  char[ 	 // c32a
-  // c32b
-5 	 // c33
-]// c34a
-// c34b
-	price
-,
-} 
-	// c37
-    packet // c38
-Heartbeat 	 // c39
-  {
-    zchar[  // c41
-3 ]
-
-    venue
-
-    ,	// c45a
-
-// c45b
-
-  string// c46a
-// c46b
-  	Flags
-	    // c47
-  , // c48a
-// c48b
-}	packet	// c50
-Trade 
-      // c51
-	{	// c52a
-
-	// c52b
-    repeat 
-        // c53
-InTag787 	 // c54
-	{
-
-i32 // c56
-    	venue// c57
-
-, 
-
-    // c58
-  	char[
-
-    5
-]// c61
-  sym  // c62a
-// c62b
-	, 
-	// c63
-    repeat InPx98 // c65
-	{char[ // c67a
-    // c67b
-		11
-// c68
-	]
-	Qty
-    // c70
-
-	,// c71a
-
-  // c71b
-Heartbeat	// c72
-		,
-
-char[] // c74
-		price  // c75
-,// c76a
-  // c76b
-		u32	// c77a
-
-// c77b
-
-x 	 // c78
-  , 
-    // c79
-		float64 	 // c80
-
-count// c81a
-      // c81b
-  ,
-
-repeat // c83
-	Quote
-// c84
-  , 	 // c85a
-	// c85b
-  }	, 
-      // c87
-    zchar[  // c88a
-    // c88b
-	  7 
-// c89
-  	] 
-	// c90
-	Note
-
-    // c91
-  	, // c92a
-    	// c92b
-      repeat 
-	// c93
-	  char[  // c94a
-  // c94b
-
-1] // c96a
-
-// c96b
-	Tail // c97a
-  // c97b
-  	, 
-	    // c98
-	}	// c99a
-
-	// c99b
-	  ,	repeat  char[// c102
-
-2 
-    // c103
-	]  // c104a
-  // c104b
-
-seqNo ,// c106a
-      // c106b
-  	InTail55 	 // c107a
-	  // c107b
-{ 	 // c108
-      repeat 	 // c109a
-		// c109b
-    Quote 	 // c110
-,  // c111
-	string 
-	    // c112
-
-msgKind
-,  // c114a
-  // c114b
-  InPx18 { 	 // c116a
-	// c116b
-char[]count
-, 
-// c119
-
-  repeat// c120
-
-Quote ,	// c122
-uint16	// c123a
-
-// c123b
-    Qty
-,
-
-    // c125
-	}
-
-// c126
-	,
-	    // c127
-char[ 	 // c128a
-// c128b
-	4
-
-]  
-      // c130
-  seqNo 
-    // c131
-  ,
-    // c132
-
-repeat 	 // c133
-	Heartbeat  
-  // c134
-  ,
-repeat	string
-sym // c138
-
-, // c139a
-// c139b
-    } // c140
-    , repeat 
-      // c142
-
-  Quote // c143
-	,  // c144
-	  Heartbeat // c145
-,
-	@leftPad
-	(// c148
-' ' 	 // c149
-
-  )	char[  10 // c152a
-  // c152b
-  ] OrderId	// c154a
-// c154b
-  , // c155a
-	// c155b
-    	} 	 // c156
-    	root  // c157a
-// c157b
-  packet // c158
-    Fill 
-    // c159
-
-	{
-
-    Heartbeat  
-      // c161
-	,
-uint32	// c163a
-		// c163b
-    count
-// c164
-
-	,	// c165
-	u8  // c166
-    OrderId // c167
-		, 
-    // c168
-	match
-OrderId  // c170
-    as
-	// c171
-	  Body
-	// c172
-	{
-    // c173
-  96 // c174
-:	// c175
-      Quote
-    // c176
-	  ,
-	// c177
-
-195 
-    // c178
-  :// c179
-Trade // c180a
-
-// c180b
-  ,// c181a
-  	// c181b
-	187 
-        // c182
-  	: 
-// c183
-	  Heartbeat // c184
-	,
-    // c185
-}
-    // c186
-  , u32 
-
-// c188
-venue 	 // c189
-@calculatedFrom(
-    // c190
-
-  ""CRC32"")
-        // c192
-  ,
-// c193
-    }
-")).
-Eval vm_compute in ("<<<M3851>>>" ++ check (runes_of_ascii "
-packet 
-	    //
-	// " ++ [128512]%N ++ runes_of_ascii " emoji
-    body {
-    @calculatedFrom( """ ++ [233]%N ++ runes_of_ascii "t" ++ [233]%N ++ runes_of_ascii """ 
-)
-body{o	@calculatedFrom( 
-""" ++ [233]%N ++ runes_of_ascii "t" ++ [233]%N ++ runes_of_ascii """ 
-) , } ,
-
-char i8i8 @lengthOf(int
-	)
-`doc`  ,
-
-    @rightPad (
-)
-	char[
-
-    0
-
-]
-    tag@lengthOf( repeatCount) 
-,
-
-    @calculatedFrom( """" )x @calculatedFrom(
-
-    """ ++ [28040; 24687]%N ++ runes_of_ascii """
-)	,
-    @calculatedFrom(
-
-    """" )	// c
-  Packet
-    `u8 x,` , // trailing space 
-    string x_y_z ,  string_
-	charz `doc`	,  match
-
-packetx as 
-string_ {00 
-:
-asx	,
-	[
-
-""\n""
-]  // " ++ [128512]%N ++ runes_of_ascii " emoji
-      :
-
-    float  ,
-	[
-
-""" ++ [28040; 24687]%N ++ runes_of_ascii """ 
-
-// @lengthOf(
-	/// triple
-	  ,
-	3 
-]  :
-
-Foo
-
-, [
-	0123456789 
-, ""1""
-] 
-:
-    o
-
-""\" ++ [233]%N ++ runes_of_ascii """ : 
-_x
-,
-
-    0123456789: matchKey} , @rightPad(' '
-
-)stringy
-{
-
-match
-calculatedFrom	as  o  {// c
-
-  1
-:
-	x_y_z,  007
-
-    :	pack  ,	3 : 
-asx 
-// trailing space 
-,// " ++ [27880; 37322]%N ++ runes_of_ascii "
-}  ,
-
-}  , 
-@calculatedFrom(  """" )@tag( 4294967296 )
-    repeat	i64// packet A { u8 x, }
-
-chars 
-,  }
-	packet 
-roots	{
-}  root
-packet 
-rootA
-{
-
-    @tag(255
-)	pack
-    `it's`
-
-    ,  @lengthOf( f32a
-	)	@tag( 
-        // a // b
-    	1
-)	@tag(
-	7 )
-    // " ++ [128512]%N ++ runes_of_ascii " emoji
-    Foo
-
-    @calculatedFrom(
-//x
-
-//
-
-""" ++ [128512]%N ++ runes_of_ascii """ )
-	, repeat calculatedFrom {	string
-    leftPad
-	`doc`
-,repeat crc{
-pack
-
-@calculatedFrom(  ""\" ++ [233]%N ++ runes_of_ascii """
-    )
-    , 
-}  ,
-
-    }
-,
-
-    string_  { match 
-i64_ as u8x  {
-
-0 :
-    _x
-, }  , 
-}  , 
-@lengthOf(
-u128 ) 	 // trailing space 
-
-match asx
-	as
-charz
-
-    {
-[ """" 
-,
-
-4294967296 ]	: A
-    , // trailing space 
-    1:  options1
-    ,
-	4294967296	:
-pack  42
-:
-	charz,
-[
-	""`tick`""
-,// a // b
-	""x y"" 	 /// triple
-,  // " ++ [27880; 37322]%N ++ runes_of_ascii "
-	255
-	] // packet A { u8 x, }
-
-	: stringy
-, }
-	, 
-@rightPad (
-	' ') @lengthOf(  // c
-    Packet
-
-    )
-	repeat
-
-uint8x
-
-trueish ,  }
-
-MetaData	i8i8
-
-    {	zchar[	10 ]  Z9_
-, zchar[
-
-0
-
-    ]
-
-    Header
-`a\`  ,stringy roots // " ++ [27880; 37322]%N ++ runes_of_ascii "
-  	,	}packet	options1  // c
-  {char[ 10
-    ]Pad
-@calculatedFrom( ""\n""
-	)
-
-`// not a comment` 
-,
-
-    roots
-	,
-@calculatedFrom( 
-""x y""
-	) zchar
-,
-
-    @rightPad
-
-(
-'0'
-)
-
-repeat  string 
-
-//x
-//
-
-  roots `say ""hi""` ,}
-")).
-Eval vm_compute in ("<<<M4318>>>" ++ check (runes_of_ascii "packet zchar {
-    match calculatedFrom as repeatCount {
-        [""{,}""] : zchar,
-        00 : Pad,
-        0 : pack,
-    },// @lengthOf(
-    f64 o `" ++ [28040; 24687; 31867; 22411]%N ++ runes_of_ascii "`,
-    int32 f32a @lengthOf(body) `
-        `,
-    char[3] chars `crlf
-        line`,
-}
-
-// @lengthOf(
-// packet A { u8 x, }
-MetaData metadata {
-    string int,
-    len lengthOf,
-}
-
-root packet A {
-    @tag(0123456789)
-    zchar[0123456789] BodyLength,
-    @leftPad('0')
-    @rightPad(' ')
-    zchar[0123456789] tag `it's`,
-    @tag(007)
-    // trailing space 
-    @tag(7)
-    falsey @calculatedFrom(""\" ++ [233]%N ++ runes_of_ascii """),
-    @calculatedFrom(""{,}"")
-    repeat Packet,
-    @lengthOf(u)
+Eval vm_compute in ("<<<M2072>>>" ++ check (runes_of_ascii "packet len {
+    @calculatedFrom(""`tick`"")
+    repeat zchar[00] chars `a\`,
+    u8x MetaDataX `line1
+    line2`,
     @calculatedFrom(""a\""b"")
+    match matchKey as asx {
+        [""CRC32"", ""a\""b""] : msg_type,
+    },
+    i8 string_ @calculatedFrom(""{,}""),
     @lengthOf(lengthOf)
-    char[] uint8x,
-    @leftPad('\x00')
-    // trailing space 
-    repeat T {
-        i8i8 a1,
-        char[65535] chars `u8 x,`,
-        Pad,
+    zchar[42] _x `line1
+    line2`,
+    @lengthOf(asx)
+    repeat int8 Header,
+    repeat crc {
+        int8 i64_ @calculatedFrom(""{,}""),
     },
-    @lengthOf(o)
-    u8 x,
-    @calculatedFrom(""a	b"")
-    lengthOf `// not a comment`,
-    A {
-        repeat calculatedFrom matchKey,
-        options1 @calculatedFrom(""a	b""),// trailing space 
-        repeat u `line1
-                line2`,
-    },
-}
-
-packet i8i8 {
-}
-
-packet pack {
-    zchar[0123456789] leftPad `
-        `,
-    @rightPad('\x00')
-    repeat int `" ++ [28040; 24687; 31867; 22411]%N ++ runes_of_ascii "`,
-    match Packet as BodyLength {
-        [00, 7] : falsey,
-    },
-    @tag(00)
-    repeat zchar[1] len `u8 x,`,
-    @leftPad()
-    rootA @lengthOf(len),
-    @tag(42)
-    // `tick` ""quote"" 'q'
-    @lengthOf(i64_)
-    repeat len {
-        x {
-            Logon {
-                options1 Logon,
+    repeat _x i8i8 `line1
+    line2`,
+    float64 stringy,
+    MetaDataX {
+        charz {
+            int16 matchKey,
+            repeat i64_,
+            char[00] Z9_ `
+            `,
+            match As as Packet {
+                3 : crc,
+                [1, 00] : Header,
+                255 : _x,
+                42 : body,
+                [0] : chars,
+                [4294967296, 65535] : chars,
             },
-            stringy {
-                string body @lengthOf(tag),
-            },
-            falsey falsey,
         },
-        MetaDataX roots `// not a comment`,
     },
-}")).
-Eval vm_compute in ("<<<M497>>>" ++ check (runes_of_ascii "
-root
-packet  a1 { uint64
-    charz
-,
-BodyLength	_x`
-`
-    ,	u64 roots `tab	here`	,
-match calculatedFrom as calculatedFrom { 10:  leftPad } ,
-i64_ @calculatedFrom( ""// no comment"" )
-,
-match
-// a // b
-/// triple
-len as BodyLength { [ ""CRC32"" //x
-, ""\" ++ [233]%N ++ runes_of_ascii """]
-:  MetaDataX , } ,uint64 trueish `u8 x,`// trailing space 
-, repeat
-i32 options1
-,// @lengthOf(
 }
-packet pack//	t
-{float32 asx
-    `a\` , int64 charz
+
+MetaData falsey {
+    char[255] u128,
+    u8 Header `tab	here`,
+    string float,
+}
+
+root packet int {
+    Logon i64_,
+    @calculatedFrom(""1"")
+    zchar {
+        u {
+            zchar[255] Pad,
+        },
+        stringy {
+            Pad metadata `u8 x,`,
+        },
+        repeat string i8i8,
+        char[] As @calculatedFrom(""\n""),
+    },
+    @lengthOf(packetx)
+    @lengthOf(i64_)
+    body `line1
+    line2`,
+    @lengthOf(roots)
+    match MetaDataX as uint8x {
+        // `tick` ""quote"" 'q'
+        [007, 255, 00] : body,
+        [
+            65535, ""1"", 1, ""\n"", 1,
+            ""CRC32"", 0
+        ] : trueish,
+    },
+    uint64 Foo,
+    zchar {
+        metadata @lengthOf(Pad) `crlf
+        line`,
+        match u as charz {
+            65535 : int,
+            [""1""] : a1,
+            [4294967296, 00, """ ++ [233]%N ++ runes_of_ascii "t" ++ [233]%N ++ runes_of_ascii """, """ ++ [28040; 24687]%N ++ runes_of_ascii """, 00] : matchKey,
+            [""a\\""] : Logon,
+        },
+        repeat rootA {
+            int16 Foo @lengthOf(rootA),
+            options1 `u8 x,`,
+        },
+    },
+    match chars as u {
+        [
+            ""it's"", 007, """ ++ [233]%N ++ runes_of_ascii "t" ++ [233]%N ++ runes_of_ascii """, ""abc"", ""\n"",
+            """"
+        ] : repeatCount,
+        65535 : Z9_,
+        [007, ""abc"", ""// no comment"", """ ++ [28040; 24687]%N ++ runes_of_ascii """] : falsey,
+        00 : string_,
+    },
+    char repeatCount,
+}
+
+packet Foo {
+    char[] a1 @calculatedFrom("""") `line1
+    line2`,
+    uint16 MetaDataX `say ""hi""`,
+    char[] A,
+    // trailing space 
+    // " ++ [128512]%N ++ runes_of_ascii " emoji
+    f64 int @lengthOf(Pad),
+    u32 BodyLength,
+    float64 trueish @lengthOf(lengthOf) `crlf
+    line`,
+    @tag(255)
+    match Z9_ as tag {
+        [""a\""b"", 4294967296, ""{,}"", ""{,}""] : Pad,
+        1 : lengthOf,
+        0123456789 : msg_type,
+        ""// no comment"" : BodyLength,
+        [""1""] : string_,
+        [
+            3, 0, 1, 1, ""\" ++ [233]%N ++ runes_of_ascii """,
+            """", 00
+        ] : asx,
+    },
+    body `say ""hi""`,
+}
+
+options {
+    x = '0';
+    u8x = u64;
+    // c
     //	t
-    @lengthOf(  repeatCount ) `" ++ [28040; 24687; 31867; 22411]%N ++ runes_of_ascii "`, @lengthOf(	u8x )
-BodyLength @calculatedFrom(  ""a\\"")  , @lengthOf(
-    Packet )repeat
-    u32 Pad	,/// triple
-}	packet options1{
-    @rightPad  ('0'
-    )i8i8  @lengthOf( stringy) ,
-int64
-    As ,	f64 crc
-    @lengthOf( u128 ) , rootA @calculatedFrom( ""1"" ) `a\`	,
-    }packet _x { repeat T x_y_z
+    string_ = ""a\""b""
+}")).
+Eval vm_compute in ("<<<M352>>>" ++ check (runes_of_ascii "MetaData	matchKey
+{ float64	string_, string pack`doc`	,Foo float `` ,x chars
+    `crlf
+line`
+    ,
+} packet Header { float64 lengthOf //x
+@lengthOf(
+    calculatedFrom ) `crlf
+line` , zchar[1 ]
+int @lengthOf( int),u8  string_,
+//x
+// c
+@tag(3 // packet A { u8 x, }
+) @tag( 10 // c
+)
+i64_
+    // " ++ [128512]%N ++ runes_of_ascii " emoji
+    {repeat	i16 body
+    //x
+    `crlf
+line` , f64 repeatCount @lengthOf( x_y_z )
+    , x{ char[ 0 ]// a // b
+int , }
+, match u128
+    as
+    MetaDataX { [ 007 ,
+    //x
+    ""// no comment"" ] : string_,
+// a // b
 // trailing space 
-// @lengthOf(
-`line1
-line2`
-, }root	packet //x
-Foo
-{ @lengthOf(
-Logon
-) @calculatedFrom( ""{,}""
-    ) @calculatedFrom( ""`tick`"" )match roots// packet A { u8 x, }
-as charz	{ 7 :
-string_
+0 : int,  [  42 , ""`tick`"" , 0123456789
+, ""\" ++ [233]%N ++ runes_of_ascii """  , ""1"", ""packet"" , 255
+, ""{,}"" ]:	crc ,
+0123456789  :	rootA [ ""\n"" ] :
+    // packet A { u8 x, }
+    charz , [ ""packet"", 10 ]
+:T , }
+, }//
+, // packet A { u8 x, }
+repeat
+zchar[ 007  ]matchKey `crlf
+line` ,
+    @rightPad // `tick` ""quote"" 'q'
+(
+    '0' )
+    // `tick` ""quote"" 'q'
+    repeat char[ 00	]
+pack`{ , }` , // " ++ [27880; 37322]%N ++ runes_of_ascii "
+i8i8
+, f32a
+    { u128
+    packetx , MetaDataX msg_type ,
+char[ 65535] falsey `" ++ [28040; 24687; 31867; 22411]%N ++ runes_of_ascii "`
+, }
+    , } packet uint8x { uint32 msg_type`u8 x,` , char[ 65535 ] // c
+o // trailing space 
+`u8 x,` , @rightPad
+( '\x00' )
+int @lengthOf( int )`crlf
+line` ,}packet Logon{ char[] string_ ,
+    string repeatCount// trailing space 
+@lengthOf( _x
+)
+    // packet A { u8 x, }
+    ,  @calculatedFrom( ""\" ++ [233]%N ++ runes_of_ascii """ )@lengthOf( trueish) @tag(
 //
 // `tick` ""quote"" 'q'
-},u64// trailing space 
-u@calculatedFrom( ""\" ++ [233]%N ++ runes_of_ascii """ )
-// trailing space 
-// a // b
-,
-@tag(
-007 )
-    // packet A { u8 x, }
-    @lengthOf( zchar ) match body as trueish
-{ [ 10
-, ""packet"" ,3 ,
-    0 ,
-    00 , """"	]
-:repeatCount
-    // a // b
-    , // " ++ [128512]%N ++ runes_of_ascii " emoji
-[ // `tick` ""quote"" 'q'
-4294967296 ]  : Logon [ ""CRC32"" , ""it's""
-] :  x_y_z ,} ,  T x
-,Pad , u8x T
-`{ , }`  ,@lengthOf( As
-    ) match o as repeatCount// a // b
-{[
-    255  ] :uint8x// a // b
-, } , u128 Foo ,} 	 ")).
-Eval vm_compute in ("<<<M823>>>" ++ check (runes_of_ascii "options
-    {f32a
-    =
-'0' ; x_y_z
-    =""\" ++ [233]%N ++ runes_of_ascii """ ;int	= ""1""	;  Z9_ = int16
-; calculatedFrom =
-true ;
-}
-MetaData
-trueish{ x_y_z trueish `// not a comment`
-, } packet zchar {@lengthOf(
-As )
-repeat
-options1 { char[]
-    //	t
-    o @calculatedFrom( ""abc"" )
-    , repeat pack /// triple
-, }	, @calculatedFrom( ""a\""b"" ) Foo rootA
-    ,match charz
-as falsey { ""x y""
-:x_y_z, 00 :	BodyLength ,  ""x y"" : x_y_z
-, // @lengthOf(
-}, Foo { repeat As{ repeat u A
+007 ) i8
+    a1
+@lengthOf(
+BodyLength
+) `it's` ,	@rightPad ( ' ') @calculatedFrom(
+    ""{,}"" // c
+) @lengthOf(
+    // `tick` ""quote"" 'q'
+    zchar
+// c
+//	t
+) repeat
+    _x {
+    len
+, repeat	uint16
     /// triple
-    ,	repeat
-Logon { uint8x @calculatedFrom(
-""\n"" ) `{ , }` , i16 float ,},
-f64 crc
-`tab	here`
-, repeat char[] As  ``
-, } , calculatedFrom
-{ match body as
-    // a // b
-    a1{
-[""{,}"" , // trailing space 
-""\n"" , """" // c
-, ""1"" , """ ++ [128512]%N ++ runes_of_ascii """
-    ] : BodyLength , ""a\\"" :	chars ,65535
-: o// " ++ [27880; 37322]%N ++ runes_of_ascii "
-[ ""\n"" ] : options1
-    ""CRC32""	: BodyLength,},
-repeat o {
-    string
-    rootA// c
-, } ,
-repeat  zchar[
-65535 ] matchKey `" ++ [28040; 24687; 31867; 22411]%N ++ runes_of_ascii "`,
-    }, char[]
-    rootA `// not a comment` ,repeat
-    T	Logon
-`" ++ [28040; 24687; 31867; 22411]%N ++ runes_of_ascii "` , },
-    @leftPad ( )@tag( 00
-// " ++ [27880; 37322]%N ++ runes_of_ascii "
-// " ++ [27880; 37322]%N ++ runes_of_ascii "
-)@lengthOf(
-Pad
-    // packet A { u8 x, }
-    )  match A as
-a1{
-    //
-    65535 :stringy	[ ""a\""b"" // " ++ [128512]%N ++ runes_of_ascii " emoji
-,
-// a // b
-// packet A { u8 x, }
-""a\\"" ] :
-/// triple
-// trailing space 
-As ,
-// " ++ [27880; 37322]%N ++ runes_of_ascii "
-//
-""// no comment""
-: repeatCount
-    , """": body[""" ++ [28040; 24687]%N ++ runes_of_ascii """
-    , """ ++ [233]%N ++ runes_of_ascii "t" ++ [233]%N ++ runes_of_ascii """]
-    // @lengthOf(
-    :
-options1  , }, } // trailing space ")).
+    trueish `say ""hi""` , u16 roots `two words` ,},} // `tick` ""quote"" 'q'")).
 Eval vm_compute in ("<<<M281>>>" ++ check (runes_of_ascii "
 packet leftPad { // packet A { u8 x, }
 @leftPad ( ' '
@@ -857,2071 +290,845 @@ f32a, }  , uint32 i8i8,Packet{	char[ 65535 ] o
 packet
 BodyLength{ }
 ")).
-Eval vm_compute in ("<<<M969>>>" ++ check (runes_of_ascii "root packet
-stringy {
-int8 As @lengthOf( trueish ) ,}
-packet
-string_ {
-stringy
-`crlf
-line`
-,uint16
-    metadata
-    // `tick` ""quote"" 'q'
-    ,  @tag( 4294967296
-    // `tick` ""quote"" 'q'
-    ) @tag( 255)
-f32a u	`doc`  ,
-    //x
-    zchar[ 3 ] Packet ,@leftPad
-(
-    //	t
-    '0')@lengthOf( uint8x  ) zchar[ 0 ]uint8x@lengthOf(
-    // packet A { u8 x, }
-    Pad
-) `two words` ,
-// " ++ [27880; 37322]%N ++ runes_of_ascii "
-// " ++ [128512]%N ++ runes_of_ascii " emoji
-@rightPad
-( '\x00'  ) i8i8 roots ,@tag(
-    007 ) u128	@calculatedFrom( """ ++ [233]%N ++ runes_of_ascii "t" ++ [233]%N ++ runes_of_ascii """ ) `two words`	, string string_ @lengthOf( falsey)
-`a\`
-,match tag as i8i8
-{
-""x y"":
-asx , } ,
-}
-    packet	u8x { } options{
-zchar =
-    f64
-    ;} packet
-    T	{
-@lengthOf( string_
-)
-    crc { metadata // a // b
-charz , char[]uint8x
-    `line1
-line2`
-    ,
-    uint8 Packet, }
-// a // b
-/// triple
-, metadata @calculatedFrom( ""\" ++ [233]%N ++ runes_of_ascii """ )
-// " ++ [128512]%N ++ runes_of_ascii " emoji
-// " ++ [27880; 37322]%N ++ runes_of_ascii "
-`{ , }` ,
-zchar @calculatedFrom( ""it's"" ) `a\`
-, u64  packetx , match //	t
-u128 as i8i8 { 4294967296 :x_y_z
-// trailing space 
-//x
-} ,
-int16 float
-,	match chars as
-    Pad
-    { ""packet"" : Packet ,
-}
-    ,
-    matchKey { metadata@lengthOf( Pad )`" ++ [233]%N ++ runes_of_ascii "` ,BodyLength``  , A , } ,
-    // " ++ [27880; 37322]%N ++ runes_of_ascii "
-    } 	 ")).
-Eval vm_compute in ("<<<M953>>>" ++ check (runes_of_ascii "  packet leftPad { char[4294967296
-]Pad , } packet Z9_ {repeat int,i64_ @lengthOf(float  ) , repeat leftPad{
-    string
-    _x , char[ 65535 ] x @calculatedFrom( ""it's"" ) `crlf
-line`,
-    },	@calculatedFrom( """ ++ [28040; 24687]%N ++ runes_of_ascii """ ) i32 tag/// triple
-, string
-    body
-@lengthOf( body ) `` //
-, @tag( 4294967296  )uint16 Logon @lengthOf(
-// packet A { u8 x, }
-// packet A { u8 x, }
-leftPad ) // a // b
-`` ,
-    } root packet repeatCount { } root
-packet options1
-    {@lengthOf(
-Z9_ ) @calculatedFrom( ""// no comment"")@calculatedFrom( ""1"" )  zchar // trailing space 
-{
-u8 repeatCount @calculatedFrom(""it's"" ) ,Packet @lengthOf( // @lengthOf(
-_x)
-    //
-    , } , @calculatedFrom( ""// no comment"") repeat	A{ int32 crc @calculatedFrom( ""// no comment"" ) `{ , }`,
-    //x
-    repeat u64 //x
-packetx `// not a comment`, } , i16
-    packetx  @calculatedFrom(	""abc"" )	`" ++ [28040; 24687; 31867; 22411]%N ++ runes_of_ascii "` ,
-    // packet A { u8 x, }
-    u16 Foo  @calculatedFrom( ""CRC32"" ), //
-} options { Header
-//	t
-// c
-='\x00'
-    ;// " ++ [27880; 37322]%N ++ runes_of_ascii "
-MetaDataX // @lengthOf(
-= 007; lengthOf = false; As = '\x00' } /// triple")).
-Eval vm_compute in ("<<<M696>>>" ++ check (runes_of_ascii "// " ++ [128512]%N ++ runes_of_ascii " emoji
-MetaData rootA{ metadata i64_
-    // @lengthOf(
-    , }
-    packet msg_type {
-    char[
-    255 ] tag
-, } options
-{  As	= ' ' ; Z9_=
-// a // b
-// c
-int16 ;  crc
-=""\" ++ [233]%N ++ runes_of_ascii """;float = f64 ;} //x
-options
-{ BodyLength = 00 }
-    packet
-    As
-    /// triple
-    { @tag(
-007
-)Z9_
-{
-repeat char[ 0 ] stringy , A
-    @lengthOf( f32a )  , } ,
-Pad x_y_z ,
-/// triple
-// @lengthOf(
-body
-`` , @tag( 65535)	char[ 0123456789 ]
-MetaDataX  @calculatedFrom(""`tick`"" ) ,pack
-falsey , zchar[
-0
-    ]MetaDataX ,	i16
-repeatCount ,
-repeat tag
-    stringy`doc` ,@lengthOf(
-Z9_)
-@leftPad (
-)	@leftPad
-(
-    //x
-    '\x00') repeat _x { repeat
-a1
-    {
-match
-u as chars {
-    // packet A { u8 x, }
-    [
-    0123456789	,
-    4294967296//
-, ""it's"" ,//x
-1 ,	""\" ++ [233]%N ++ runes_of_ascii """]: Z9_ 4294967296 // trailing space 
-:
-    rootA ""abc"" : stringy }, } ,
-    /// triple
-    repeat string chars
-    // trailing space 
-    `" ++ [233]%N ++ runes_of_ascii "` ,
-int8
-    // " ++ [128512]%N ++ runes_of_ascii " emoji
-    u8x @lengthOf( x_y_z )
-, // @lengthOf(
-} ,
-uint64 body
-@lengthOf(roots),}
-")).
-Eval vm_compute in ("<<<M131>>>" ++ check (runes_of_ascii "packet u128 {@lengthOf( x_y_z )	@lengthOf( stringy )
-@lengthOf( _x) zchar[
-// c
-// c
-4294967296 ] asx @calculatedFrom(
-    ""\" ++ [233]%N ++ runes_of_ascii """	)
-    `
-` ,char[0 ] matchKey
-, rootA
-    u128
-    ,
-    metadata metadata ,	zchar[	3 ]
-    string_ `" ++ [233]%N ++ runes_of_ascii "`
-,
-// `tick` ""quote"" 'q'
-// " ++ [27880; 37322]%N ++ runes_of_ascii "
-@calculatedFrom(""a	b""
-)
-char roots `" ++ [28040; 24687; 31867; 22411]%N ++ runes_of_ascii "` , repeat zchar[10]
-pack
-    `
-`, @calculatedFrom( ""{,}"" )
-@lengthOf( //	t
-Foo )  packetx {// " ++ [128512]%N ++ runes_of_ascii " emoji
-match i8i8 as Header
-{ 255	: Z9_  """ ++ [233]%N ++ runes_of_ascii "t" ++ [233]%N ++ runes_of_ascii """ :tag
-, [ 7,	1, ""// no comment"", ""// no comment"" , 3
-,
-    """" , // `tick` ""quote"" 'q'
-1 ] :lengthOf 3 :  asx , [ 42	,
-0 , 1 ] :Z9_ , 10 :
-    A}, } , }root packet T {/// triple
-int32 roots `two words`, stringy, @rightPad ( '\x00')float64 len	@lengthOf( o )
-    ,match body // `tick` ""quote"" 'q'
-as	uint8x { 10
-    :
-tag , }
-    ,
-    repeat u8
-    Pad
-    `" ++ [28040; 24687; 31867; 22411]%N ++ runes_of_ascii "`
-    , repeat char[]
-    float // c
-, @calculatedFrom(	""packet"" ) u16 x
-    @lengthOf(
-u8x)
-// c
-// a // b
-, } //x")).
-Eval vm_compute in ("<<<M942>>>" ++ check (runes_of_ascii "//
-packet
-// " ++ [128512]%N ++ runes_of_ascii " emoji
-//	t
-falsey{ x_y_z @calculatedFrom( ""CRC32"" ) `{ , }` , repeat int8
-i64_ , char[]f32a
-    ,@lengthOf(calculatedFrom ) repeat string f32a `{ , }` , match pack as u128 { [ 10
-//	t
-// trailing space 
-, 7 ] : calculatedFrom ,
-""" ++ [128512]%N ++ runes_of_ascii """ : options1
-    // c
-    , 1 : calculatedFrom , ""\" ++ [233]%N ++ runes_of_ascii """
-    :body
-    ,
-}, @leftPad(' ' ) o packetx ``
-,  @calculatedFrom( ""{,}""
-    ) char[ 7  ] u , repeat u	_x , Z9_
-    , @leftPad
-(  ' ' ) string asx ,} packet
-zchar { zchar[1 ] As `two words`
-, zchar[
-    7
-] charz @calculatedFrom(""" ++ [128512]%N ++ runes_of_ascii """ ) , // c
-@tag( 4294967296
-)  char[]
-uint8x @calculatedFrom(
-    ""`tick`""
-)//x
-, repeat char
-    metadata, zchar[ 65535 /// triple
-] metadata , stringy i64_ ,
-    @leftPad	('\x00' ) string_ @lengthOf( //
-options1 ) ,@tag(// packet A { u8 x, }
-65535)  float64 Foo @calculatedFrom(  ""abc""
-    ) `{ , }` , }options {
-// packet A { u8 x, }
-//	t
-}
-")).
-Eval vm_compute in ("<<<M4580>>>" ++ check (runes_of_ascii "
-packet
-
-charz {  // @lengthOf(
-
-}  options {
-	}packet
-float
-    { metadata	Logon
-,}
-	packet  body
-
-    {@tag(  42  // packet A { u8 x, }
-    	)
-repeat tag
-
-    i64_  , 	 /// triple
-  @lengthOf(
-string_)
-
-    match  chars as
-    Z9_	{ [  65535
-    // " ++ [27880; 37322]%N ++ runes_of_ascii "
-  //x
-    ] : o	// `tick` ""quote"" 'q'
-,  [ //	t
-
-""{,}"" ,
-
-    0123456789
-    , ""packet""
-    // packet A { u8 x, }
-//
-    ,
-
-    ""abc""
-	, 255,	""" ++ [233]%N ++ runes_of_ascii "t" ++ [233]%N ++ runes_of_ascii """  , 
-    // packet A { u8 x, }
-	//x
-  ""x y""
-    ,3]
-:pack,	""abc""
-
-:matchKey	,
-[
-	0123456789,
-    1
-
-]
-    : chars 
-	// c
-  1
-
-:
-
-int ,
-    """ ++ [233]%N ++ runes_of_ascii "t" ++ [233]%N ++ runes_of_ascii """
-:	i64_ ,  }
-,
-    match 
-Pad
-
-    as
-trueish
-{
-
-    ""a	b""
-: pack, }
-, 
-@calculatedFrom(
-
-""" ++ [28040; 24687]%N ++ runes_of_ascii """
-    )  repeat
-u128  x
-,
-    string
-
-A
-
-,  lengthOf
-
-{
-	BodyLength 
-T  ,	int16  A	@lengthOf(
-i8i8
-) 	 //x
-    , // " ++ [27880; 37322]%N ++ runes_of_ascii "
-    }
-	, options1 chars `line1
-line2` ,}
-")).
-Eval vm_compute in ("<<<M571>>>" ++ check (runes_of_ascii "// packet A { u8 x, }
-packet packetx { @tag( 7 ) f64 o @calculatedFrom(
-""" ++ [233]%N ++ runes_of_ascii "t" ++ [233]%N ++ runes_of_ascii """ ) , repeat MetaDataX {i8 Logon
-    ,}	, char[ 7] string_  , repeat	o	{	u16	Foo ,repeat i16
-packetx
-    ,	match matchKey as As { ""packet""
-: roots , 42
-:
-falsey 0123456789
-    // c
-    : matchKey , ""\" ++ [233]%N ++ runes_of_ascii """ :
-    zchar """ ++ [233]%N ++ runes_of_ascii "t" ++ [233]%N ++ runes_of_ascii """ : stringy, [ 65535]:rootA ,} ,repeat char[]  lengthOf ,} ,match
-    x // c
-as
-//	t
-//
-falsey
-    { ""1"" :
-    Packet , 1 : u ,
-    0 : charz  [ ""1"" ] : pack ,""a\""b"" : options1 ,} ,
-@tag(
-0)
-// trailing space 
-// " ++ [128512]%N ++ runes_of_ascii " emoji
-repeat int16
-matchKey , uint16 rootA`` , // c
-match string_
-as
-A {[ 3  , """ ++ [28040; 24687]%N ++ runes_of_ascii """ ]:zchar
-,
-    } , } packet f32a { } MetaData falsey { char[] Header ,metadata
-    Pad `two words` , zchar[ 10 ] calculatedFrom ,char[] lengthOf
-,
-float32 u
-`line1
-line2`  ,}")).
-Eval vm_compute in ("<<<M1330>>>" ++ check (runes_of_ascii "  root	packet falsey
-{  }
-root packet x { asx ,
-stringy { //x
-f64 roots
-, char[]// packet A { u8 x, }
-chars@lengthOf( uint8x )
-    // `tick` ""quote"" 'q'
-    `
-`
-, }  , @lengthOf(len ) i8	MetaDataX@calculatedFrom( ""packet""
-) , match MetaDataX
-    as _x
-{ 0
-: uint8x
-, }
-,
-// c
-//x
-@leftPad ( '\x00')uint16 // c
-roots @calculatedFrom(""abc""
-    // `tick` ""quote"" 'q'
-    ) ,  @rightPad
-    (
-' ') int32
-leftPad @calculatedFrom( ""packet"" /// triple
-) `" ++ [233]%N ++ runes_of_ascii "`, }  options { falsey = 7
-i64_
-=int16// packet A { u8 x, }
-len=
-false
-//x
-// @lengthOf(
-;	_x
-='0';asx = """ ++ [28040; 24687]%N ++ runes_of_ascii """
-    ; } options {
-packetx =uint64
-    ; len=
-    true ;
-} packet
-tag // `tick` ""quote"" 'q'
-{@leftPad ( )
-    @calculatedFrom(
-""abc"")
-    int16 Pad @lengthOf( BodyLength  ) , //x
-}
-")).
-Eval vm_compute in ("<<<M49>>>" ++ check (runes_of_ascii "packet
-i8i8 {
-    char[]
-    string_
-// " ++ [27880; 37322]%N ++ runes_of_ascii "
-//
-`tab	here` //
-, @lengthOf(
-    T )
-    @lengthOf(
-uint8x)@rightPad ( '\x00' ) zchar[ 4294967296 // packet A { u8 x, }
-]	f32a @calculatedFrom(
-// " ++ [27880; 37322]%N ++ runes_of_ascii "
-//x
-""CRC32"")
-    `it's`	, } // @lengthOf(
-root // packet A { u8 x, }
-packet	A
-    { @rightPad
-//	t
-// packet A { u8 x, }
-( )
-    @calculatedFrom(""" ++ [233]%N ++ runes_of_ascii "t" ++ [233]%N ++ runes_of_ascii """ )	string T`crlf
-line`
-    ,
-    u64 falsey `two words`
-//x
-// trailing space 
-,zchar[ 65535	] lengthOf
-`doc` , match // `tick` ""quote"" 'q'
-crc
-as int { [ ""packet"",
-    ""it's""
-    ]
-: body ,007
-:
-    // a // b
-    leftPad
-,	""{,}"" :
-    Z9_, [ 0123456789
-    , 00
-    , ""a\\"" // " ++ [128512]%N ++ runes_of_ascii " emoji
-, """ ++ [128512]%N ++ runes_of_ascii """  , ""\" ++ [233]%N ++ runes_of_ascii """
-    , ""`tick`"", ""it's"",
-    """ ++ [233]%N ++ runes_of_ascii "t" ++ [233]%N ++ runes_of_ascii """]
-: x_y_z,} // c
-,}
-")).
-Eval vm_compute in ("<<<M1385>>>" ++ check (runes_of_ascii "options{ msg_type =
-'0' ;
-}
-// trailing space 
-// " ++ [27880; 37322]%N ++ runes_of_ascii "
-packet
-matchKey	{ @calculatedFrom( ""x y"" )
-    zchar[
-10 ]metadata , Z9_
-@calculatedFrom(""packet"" ), zchar[ 4294967296]
-packetx `doc` ,tag
-@lengthOf(packetx
-) , // c
-@rightPad() u
-T , char[3// " ++ [128512]%N ++ runes_of_ascii " emoji
-]int , @calculatedFrom( ""CRC32""
-) repeat
-    // @lengthOf(
-    metadata {u128
-@calculatedFrom(
-"""")
-, repeat i32
-    Z9_
-    ,  repeat uint64 trueish `a\` ,
-    a1{
-    //x
-    uint8 _x // packet A { u8 x, }
-@lengthOf( _x  ) // trailing space 
-, } ,}  , match
-options1
-as leftPad  { //
-""" ++ [28040; 24687]%N ++ runes_of_ascii """
-    :
-    u8x ,1:
-body ,}/// triple
-, @calculatedFrom( ""1""
-) match T as Foo {  255 : T, } , } options{ } options { }")).
-Eval vm_compute in ("<<<M3596>>>" ++ check (runes_of_ascii "// top
-options
-    // c0
-{ // c1a
-  // c1b
-FixedStringPadChar // c2a
-  // c2b
-= // c3a
-  // c3b
-'0' // c4
-; // c5
-} // c6
-packet // c7
-Q
-    // c8
-{ // c9
-zchar[
-    // c10
-4 // c11a
-  // c11b
-] // c12
-z
-    // c13
-,
-    // c14
-@rightPad // c15
-( // c16a
-  // c16b
-'\x00' // c17a
-  // c17b
-) // c18
-char[ 3 // c20
-] // c21a
-  // c21b
-n
-    // c22
-, char[ // c24
-5 ]
-    // c26
-d // c27
-,
-    // c28
-} root // c30
-packet R // c32
-{ // c33
-Q
-    // c34
-, // c35
-zchar[ // c36
-8 // c37a
-  // c37b
-]
-    // c38
-top // c39a
-  // c39b
-, repeat // c41a
-  // c41b
-zchar[ // c42
-2 // c43a
-  // c43b
-] // c44
-zs // c45
-, // c46
-}
-    // c47
-")).
-Eval vm_compute in ("<<<M209>>>" ++ check (runes_of_ascii "packet _x
-    {repeat
-u8x {
-    repeat pack
-    body,
-    } ,
-@calculatedFrom( ""x y"" ) A { match msg_type as f32a {4294967296
-    : crc 1
-// c
-/// triple
-: uint8x , // a // b
-[ 255, 0
-    ] : // " ++ [27880; 37322]%N ++ runes_of_ascii "
-pack , [7 ,
-// `tick` ""quote"" 'q'
-// packet A { u8 x, }
-00 ] :	roots , [ 255
-    ]
-:	rootA
-    , } ,
-    char packetx
-@calculatedFrom( ""{,}""
-    // trailing space 
-    )
-, } ,
-    match
-    BodyLength //
-as u8x {""a	b"" : u,
-    00 // @lengthOf(
-: msg_type,// " ++ [27880; 37322]%N ++ runes_of_ascii "
-}, match metadata as As{[ 0123456789, 3 ,// a // b
-0
-, ""it's""
-, ""it's"" , ""1"" ] :
-int
-,
-    ""packet"": leftPad}, char[] Pad `say ""hi""` , }
-
-")).
-Eval vm_compute in ("<<<M1018>>>" ++ check (runes_of_ascii "
-root packet
-Foo
-    {match As as// packet A { u8 x, }
-rootA
-{ ""CRC32""  : packetx
-, 4294967296 : Header , [0123456789
-    ,
-    255
-// @lengthOf(
-//x
-, 0
-    , ""\n""
-,
-    ""packet"" ] : BodyLength
-,
-[
-7
-// a // b
-// c
-, 255
-    , 65535  ,00,
-    3 , ""packet""	, // @lengthOf(
-""abc""] :  f32a
-,} ,
-    f32
-calculatedFrom @lengthOf(// trailing space 
-metadata
-) `crlf
-line` ,
-    } //	t
-options
-{ // c
-x_y_z //x
-=7 body	=zchar[1
-] ; }
-packet i8i8// trailing space 
-{string_{ u32 //x
-options1 // c
-@calculatedFrom(
-""1"" )  , }// `tick` ""quote"" 'q'
-,} // `tick` ""quote"" 'q'")).
-Eval vm_compute in ("<<<M4069>>>" ++ check (runes_of_ascii "
-options
-
-    {}root
-    packet u8x {  options1 {Header @lengthOf(
-	x_y_z
-	)
-,
-u16 f32a
-
-,
-
-}  , 
-zchar[  4294967296	] leftPad
-,repeat
-	char[
-
-    007
-	]//	t
-  trueish
-
-    ,
-int
-
-@calculatedFrom( """ ++ [28040; 24687]%N ++ runes_of_ascii """
-
-    )
-
-    // c
-
-,
-    match
-
-i64_	as	chars{ """ ++ [128512]%N ++ runes_of_ascii """ : // a // b
-	  Logon 
-,
-	42	:	matchKey 65535 :
-
-u
-,
-
-    [ 4294967296
-	, 65535
-
-]
-
-:As
-    ,
-
-    }
-	,
-	@rightPad // a // b
-	( '\x00'
-
-    ) @tag( 42
-    )  
-  // packet A { u8 x, }
-  	i32	Pad// " ++ [128512]%N ++ runes_of_ascii " emoji
-	`two words` , 	 // c
-@tag( 
-    // c
-  	00  ) 
-f32a `tab	here` ,}")).
-Eval vm_compute in ("<<<M1075>>>" ++ check (runes_of_ascii "options
-    // packet A { u8 x, }
-    { u = ""a\""b""
-    // `tick` ""quote"" 'q'
-    ;}packet matchKey {char[
-/// triple
-// `tick` ""quote"" 'q'
-42 ]
-    len @lengthOf( f32a
-    //	t
-    )
-`it's`// packet A { u8 x, }
-, @lengthOf( x_y_z )@calculatedFrom(//
-""CRC32"" // " ++ [128512]%N ++ runes_of_ascii " emoji
-) uint16 f32a@lengthOf( zchar )
-    `" ++ [233]%N ++ runes_of_ascii "` , @lengthOf( Z9_
-    //x
-    )
-// c
-// @lengthOf(
-@leftPad ( '0' )  repeat
-    falsey { options1 ,char charz `doc`, zchar[ 10 ] leftPad // c
-, // " ++ [27880; 37322]%N ++ runes_of_ascii "
-} , } packet	o { stringy @calculatedFrom(
-    ""CRC32"")
-    , }
-")).
-Eval vm_compute in ("<<<M3608>>>" ++ check (runes_of_ascii "// top
-root // c0
-packet Frame {
-    // c3
-u8 K ,
-    // c6
-Logon // c7a
-  // c7b
-first , // c9a
-  // c9b
-match
-    // c10
-K
-    // c11
-as // c12
-Body // c13a
-  // c13b
-{ // c14a
-  // c14b
-1 : // c16a
-  // c16b
-Logon , // c18a
-  // c18b
-2 :
-    // c20
-Logout
-    // c21
-, // c22
-} , }
-    // c25
-packet Logon // c27
-{ // c28
-string // c29
-user // c30a
-  // c30b
-, // c31a
-  // c31b
-} // c32a
-  // c32b
-packet
-    // c33
-Logout { // c35
-u16 // c36
-reason
-    // c37
-, // c38a
-  // c38b
-}
-    // c39
-")).
-Eval vm_compute in ("<<<M293>>>" ++ check (runes_of_ascii "root
-    packet
-//	t
-// c
-charz{
-f32 stringy // @lengthOf(
-, @rightPad ( '\x00'
-    ) metadata
-    { MetaDataX
-A
-    // `tick` ""quote"" 'q'
-    , }
-,
-repeat zchar[ 0/// triple
-] u8x , @calculatedFrom( // @lengthOf(
-""it's"")
-    match trueish as
-u128 { ""{,}"" :
-    stringy
-} ,}
-    packet Packet
-{char[ 3]  int @calculatedFrom( ""x y""
-) ,
-}
-MetaData Packet { u128 trueish `" ++ [28040; 24687; 31867; 22411]%N ++ runes_of_ascii "` , int8 pack,
-    // packet A { u8 x, }
-    zchar[ 00 //x
-] repeatCount `a\` ,
-    // c
-    }
-")).
-Eval vm_compute in ("<<<M3555>>>" ++ check (runes_of_ascii "// top
-options // c0
-{ // c1a
-  // c1b
-LittleEndian =
-    // c3
-true // c4a
-  // c4b
-;
-    // c5
-} // c6a
-  // c6b
-packet
-    // c7
-B // c8
-{
-    // c9
-u8 // c10
-a // c11
-, // c12
-string
-    // c13
-s // c14a
-  // c14b
-, // c15
-}
-    // c16
-root
-    // c17
-packet // c18
-P // c19
-{ // c20
-u16 // c21a
-  // c21b
-L // c22a
-  // c22b
-@lengthOf( // c23
-B // c24a
-  // c24b
-)
-    // c25
-, B
-    // c27
-,
-    // c28
-u8
-    // c29
-t , // c31a
-  // c31b
-} // c32
-")).
-Eval vm_compute in ("<<<M3635>>>" ++ check (runes_of_ascii "options {
+Eval vm_compute in ("<<<M2078>>>" ++ check (runes_of_ascii "options {
     LittleEndian = true;
     StringPrefixLenType = u16;
-    ArrayPrefixLenType = u64;
+    ArrayPrefixLenType = u8;
+    FixedStringPadChar = '0';
 }
-packet Fill {
+
+packet Logout {
+    repeat i16 f1,
+    string Ref,
+    @rightPad('\x00')
+    char[9] Tail,
+    repeat char[6] Flags,
+    repeat char[3] Acct,
 }
-packet Logon {
-    repeat char[3] Tail,
-    zchar[6] venue,
-    repeat string Side2,
+
+packet Party {
+    char[2] f1,
+    u8 Side2,
+    @leftPad(' ')
+    char[1] venue,
 }
-root packet Cancel {
-    char[] Flags,
-    char[] OrderId,
-    zchar[6] msgKind,
-    Fill,
-    char[] Acct,
-    u8 f1,
-    match f1 as Body {
-        188 : Fill,
-        5 : Logon,
+
+packet Order {
+    repeat i64 Ref,
+    InPx62 {
+        i32 OrderId,
     },
-    u32 clOrdID @calculatedFrom(""CR\
-C32""),
+    InNote53 {
+        InClordid80 {
+            char[] Acct,
+            u32 Px,
+            repeat Party,
+        },
+        InPrice12 {
+            u8 pad0,
+        },
+        repeat Logout,
+        InFlags23 {
+            repeat string seqNo,
+            string sym,
+            int8 Flags,
+            zchar[5] lastPx,
+            zchar[6] Px,
+        },
+        char[10] Acct,
+        InPx18 {
+            zchar[2] count,
+            Party,
+        },
+    },
+    char[5] Side2,
+    char[1] Acct,
 }
-")).
-Eval vm_compute in ("<<<M1313>>>" ++ check (runes_of_ascii "packet options1{match string_
-as// packet A { u8 x, }
-i8i8 {
-    10 :
-a1 , ""a\""b"" :
-    x_y_z ""abc"" :
-charz
-""" ++ [28040; 24687]%N ++ runes_of_ascii """
-    : //
-repeatCount, ""\" ++ [233]%N ++ runes_of_ascii """  : u8x, } ,@lengthOf( Foo// @lengthOf(
-)repeat x_y_z {  repeat u32
-BodyLength
-,
-    } ,match Foo
-    as
-msg_type
-{ 42
-:Pad [ 0
-    , """ ++ [28040; 24687]%N ++ runes_of_ascii """] : MetaDataX ,	""1"" :
+
+root packet Ack {
+    u32 Tail,
+    repeat char[4] msgKind,
+    repeat Logout,
+}")).
+Eval vm_compute in ("<<<M163>>>" ++ check (runes_of_ascii "packet
     // `tick` ""quote"" 'q'
-    float
-""x y"" // @lengthOf(
-: msg_type
-    //x
-    , 4294967296:len} , float `" ++ [28040; 24687; 31867; 22411]%N ++ runes_of_ascii "`, }
-")).
-Eval vm_compute in ("<<<M3850>>>" ++ check (runes_of_ascii "
-// `tick` ""quote"" 'q'
-	  MetaData BodyLength
-{ char[00 
-        //x
-// " ++ [27880; 37322]%N ++ runes_of_ascii "
-    ] A
-	`a\`
-	, zchar[ 	 // trailing space 
-	0123456789  ]T // packet A { u8 x, }
-
-`tab	here` 
+    u8x {} packet calculatedFrom
+    {
+    i8i8
+len
 ,
-	As
-	asx	`" ++ [28040; 24687; 31867; 22411]%N ++ runes_of_ascii "` 
-,	char[] falsey
-, o  // " ++ [128512]%N ++ runes_of_ascii " emoji
+    match lengthOf as leftPad
+{ 007
+    : crc
+, ""abc"": o 10 : falsey
+    } , repeat  i8
+metadata  , @calculatedFrom(""" ++ [28040; 24687]%N ++ runes_of_ascii """ ) repeat int16
+leftPad
+    // trailing space 
+    ``
+    ,BodyLength
+    @calculatedFrom(  ""a\\""
+    ) ,
+char[] f32a,
+    tag// packet A { u8 x, }
+rootA
+, @rightPad (
+    // " ++ [27880; 37322]%N ++ runes_of_ascii "
+    ' ' ) @tag( 007 ) match o as
+    // " ++ [27880; 37322]%N ++ runes_of_ascii "
+    _x { [ 1
+    // " ++ [27880; 37322]%N ++ runes_of_ascii "
+    ,
+""a	b""
+, ""1"" ,
+00 ,7
+// " ++ [128512]%N ++ runes_of_ascii " emoji
+//x
+,""" ++ [233]%N ++ runes_of_ascii "t" ++ [233]%N ++ runes_of_ascii """
+    ,
+    // c
+    7 ,00
+    ]
+    : Foo ,
+    // " ++ [27880; 37322]%N ++ runes_of_ascii "
+    ""\" ++ [233]%N ++ runes_of_ascii """// @lengthOf(
+:  matchKey
+    ,},//x
+@rightPad (	'\x00' )string msg_type	, }
+packet  trueish {u8x
+``
+, @lengthOf( Header
+    )
+    repeat int64 int	`` ,
+} MetaData matchKey	{ string msg_type	, zchar[
+    //	t
+    4294967296
+]
+repeatCount `it's`
+, u8
+crc
+, zchar
+o ,int64 asx
+, }root
+packet chars{
+    }
+")).
+Eval vm_compute in ("<<<M1552>>>" ++ check (runes_of_ascii "options
+    { LittleEndian	= false
+	;
+    StringPrefixLenType	=u8;
 
-	Foo`tab	here`
-    , 
+ArrayPrefixLenType
+	=
+
+u8
+	;FixedStringPadFromLeft =true
+    ; FixedStringPadChar =
+
+' '
+;}packet
+Trade { zchar[ 2
+] Side2
+,
+i8  seqNo ,
+
+    }  packet Party
+
+{uint32
+price,
+    } packet  Ack
+	{ @rightPad
+    ( '\x00'
+)char[6 
+] x
+
+,
+	repeat
+    char[  4 
+]
+Flags , zchar[
+9
+] 
+f1 , } packet
+    Cancel
+    { Ack
+
+, }
+    packet Heartbeat
+
+    {
+    string
+    Px ,
+string Acct
+, 
+f64
+    Side2
+, 
+InQty24{  i16
+
+    seqNo , repeat 
+i32
+	Flags  , 
 }
-
+    ,
+}
     root
 
-packet i64_{	repeat	uint64
-o	,
-    @calculatedFrom(
-
-""abc"")
-    uint8x , @tag(
-	4294967296 )
-	char[ 255
-]
-    repeatCount
-    ``
-	,
-
-}
-")).
-Eval vm_compute in ("<<<M1364>>>" ++ check (runes_of_ascii "  MetaData
-matchKey { //	t
-}packet
-    u8x{ len
-{	_x,  } , } packet Logon{ u64 falsey @calculatedFrom( ""x y"" ) , @calculatedFrom(
-    """ ++ [233]%N ++ runes_of_ascii "t" ++ [233]%N ++ runes_of_ascii """ ) @rightPad// trailing space 
-(
-' '
-    // `tick` ""quote"" 'q'
-    )
-repeat float32 Foo ,
-    uint8 i64_
-    @lengthOf(u ) , zchar[ // " ++ [128512]%N ++ runes_of_ascii " emoji
-3  ]Header @calculatedFrom(
-    ""1"")
-// `tick` ""quote"" 'q'
-//x
-, repeat chars u128 `u8 x,`
-    , }")).
-Eval vm_compute in ("<<<M230>>>" ++ check (runes_of_ascii "packet x { lengthOf rootA , @rightPad
-( '0' )
-i8 asx @lengthOf( calculatedFrom // a // b
-),
-@lengthOf( Pad ) repeat //x
-int16 trueish // c
-``// " ++ [27880; 37322]%N ++ runes_of_ascii "
-, @calculatedFrom(
-""" ++ [128512]%N ++ runes_of_ascii """) @tag(0
-)
-@lengthOf( // a // b
-matchKey ) string MetaDataX`doc`
-,
-i16 // `tick` ""quote"" 'q'
-options1 @lengthOf(
-    // " ++ [27880; 37322]%N ++ runes_of_ascii "
-    u8x
-    // " ++ [128512]%N ++ runes_of_ascii " emoji
-    ) `a\` ,
-    u128
-u128`line1
-line2`,}")).
-Eval vm_compute in ("<<<M825>>>" ++ check (runes_of_ascii "// `tick` ""quote"" 'q'
-MetaData	BodyLength {
-char[ 00
-//x
-// " ++ [27880; 37322]%N ++ runes_of_ascii "
-]
-A
-`a\`	, zchar[// trailing space 
-0123456789 ] T // packet A { u8 x, }
-`tab	here` ,As asx `" ++ [28040; 24687; 31867; 22411]%N ++ runes_of_ascii "` ,
-char[]falsey ,  o // " ++ [128512]%N ++ runes_of_ascii " emoji
-Foo `tab	here` , } root packet
-i64_ {
-    repeat uint64 o,
-@calculatedFrom(
-""abc"" ) uint8x ,
-@tag( 4294967296
-    ) char[ 255]
-    repeatCount `` ,	}")).
-Eval vm_compute in ("<<<M1079>>>" ++ check (runes_of_ascii "packet
-    Packet
-// " ++ [128512]%N ++ runes_of_ascii " emoji
-//	t
-{ @leftPad
-('\x00' )
-    // `tick` ""quote"" 'q'
-    match trueish as Pad { 65535 :Header ,
-00 :// `tick` ""quote"" 'q'
-roots
-    [ """ ++ [233]%N ++ runes_of_ascii "t" ++ [233]%N ++ runes_of_ascii """ ,
-""1"" , ""packet"" , 42 , 0, ""x y""
-    ,
-""" ++ [128512]%N ++ runes_of_ascii """ ,
-""a	b"" ]
-    :
-BodyLength
-, """ ++ [28040; 24687]%N ++ runes_of_ascii """ : Packet ,
-[ """ ++ [128512]%N ++ runes_of_ascii """ ]: body } , } //x
-options
-    // a // b
-    { /// triple
-As = u16 }")).
-Eval vm_compute in ("<<<M4201>>>" ++ check (runes_of_ascii "
 packet
-
-    packetx { @tag( 7 )	@calculatedFrom(
-
-""`tick`""
-
-    )@calculatedFrom(""a\\"")char[] int
-,  @rightPad
-(
-
-    ' ')
-string  // `tick` ""quote"" 'q'
-	tag
-
-`tab	here`
-
-,@lengthOf(
-asx
-    ) 
-u8	// c
-	repeatCount
-    , 
-@calculatedFrom( ""// no comment"") 
-    //x
-	// trailing space 
-
-zchar[  1
-    ]
-
-a1
-	, } ")).
-Eval vm_compute in ("<<<M1868>>>" ++ check (runes_of_ascii "MetaData
-    u true }  options {
-// c
-// @lengthOf(
-float = int8 ;rootA =false ; As =	int16 // `tick` ""quote"" 'q'
-repeatCount
-    // trailing space 
-    =
-    int16
-; u8x =
-    //	t
-    '\x00' ; } options	{
-    repeatCount
-= 0
-u128
-    //
-    = false ; i64_
-// trailing space 
-// `tick` ""quote"" 'q'
-= '0' ; //	t
-}
-")).
-Eval vm_compute in ("<<<M2046>>>" ++ check (runes_of_ascii "MetaData
-    u { }  options {
-// c
-// @lengthOf(
-float = int8 ;rootA =false ; As =	int16 // `tick` ""quote"" 'q'
-repeatCount
-    // trailing space 
-    =
-    int16
-; u8x =
-    //	t
-    '\x00' ; } options	{
-    repeatCount
-= 0
-u128
-    //
-    = false ; i64_
-// trailing space 
-// `tick` ""quote"" 'q'
-= '0' ; ; //	t
-}
-")).
-Eval vm_compute in ("<<<M1877>>>" ++ check (runes_of_ascii "MetaData
-    u { }  { options
-// c
-// @lengthOf(
-float = int8 ;rootA =false ; As =	int16 // `tick` ""quote"" 'q'
-repeatCount
-    // trailing space 
-    =
-    int16
-; u8x =
-    //	t
-    '\x00' ; } options	{
-    repeatCount
-= 0
-u128
-    //
-    = false ; i64_
-// trailing space 
-// `tick` ""quote"" 'q'
-= '0' ; //	t
-}
-")).
-Eval vm_compute in ("<<<M2027>>>" ++ check (runes_of_ascii "MetaData
-    u { }  options {
-// c
-// @lengthOf(
-float = int8 ;rootA =false ; As =	int16 // `tick` ""quote"" 'q'
-repeatCount
-    // trailing space 
-    =
-    int16
-; u8x =
-    //	t
-    '\x00' ; } options	{
-    repeatCount
-= 0
-u128
-    //
-    = false i64_ ;
-// trailing space 
-// `tick` ""quote"" 'q'
-= '0' ; //	t
-}
-")).
-Eval vm_compute in ("<<<M2035>>>" ++ check (runes_of_ascii "MetaData
-    u { }  options {
-// c
-// @lengthOf(
-float = int8 ;rootA =false ; As =	int16 // `tick` ""quote"" 'q'
-repeatCount
-    // trailing space 
-    =
-    int16
-; u8x =
-    //	t
-    '\x00' ; } options	{
-    repeatCount
-= 0
-u128
-    //
-    = false ; i64_
-// trailing space 
-// `tick` ""quote"" 'q'
- '0' ; //	t
-}
-")).
-Eval vm_compute in ("<<<M4154>>>" ++ check (runes_of_ascii "MetaData calculatedFrom {
-    // @lengthOf(
-    tag a1,
-    uint8 _x `crlf
-        line`,
-    // " ++ [27880; 37322]%N ++ runes_of_ascii "
-    // packet A { u8 x, }
-    string Z9_,
-    uint8x A `line1
-        line2`,
-    char falsey,
-    packetx Foo,
-}
-
-MetaData body {
-    string x_y_z ``,
-    falsey zchar `line1
-        line2`,
-}
-
-options {
-}")).
-Eval vm_compute in ("<<<M934>>>" ++ check (runes_of_ascii "packet metadata // `tick` ""quote"" 'q'
-{ Z9_ @lengthOf(
-// `tick` ""quote"" 'q'
-// @lengthOf(
-i64_)
-, }
-    packet pack
-// " ++ [27880; 37322]%N ++ runes_of_ascii "
-// " ++ [128512]%N ++ runes_of_ascii " emoji
+	Logon 
 {
-options1
-@lengthOf(asx
-    ),
-@leftPad( ' ' )
-@calculatedFrom(	""abc"" )
+
+    Trade
+,  i64 venue
+, u32
+x,
+
+    u8  seqNo
+	, match seqNo as
+    Body	{
+[1,164
+]
+: 
+Ack  ,	31 :
+	Cancel	, 23 : Heartbeat	,
+64: 
+Party,
+	} , }")).
+Eval vm_compute in ("<<<M1541>>>" ++ check (runes_of_ascii "// top
+options // c0a
+  // c0b
+{ // c1
+StringPrefixLenType // c2
+= u16 // c4
+; FixedStringPadChar // c6
+= // c7
+' '
+    // c8
+; // c9a
+  // c9b
+} packet
+    // c11
+Party
+    // c12
+{ } packet // c15a
+  // c15b
+Quote // c16a
+  // c16b
+{ // c17
+repeat
+    // c18
+Party , // c20
+repeat // c21a
+  // c21b
+char[ // c22a
+  // c22b
+2
+    // c23
+] // c24
+f1 , // c26
+} packet // c28
+Logon // c29a
+  // c29b
+{
+    // c30
+}
+    // c31
+root
+    // c32
+packet // c33
+Cancel // c34
+{ // c35a
+  // c35b
+uint16
+    // c36
+x , // c38a
+  // c38b
+zchar[
+    // c39
+6 // c40a
+  // c40b
+] // c41a
+  // c41b
+f1 // c42a
+  // c42b
+, // c43
+} // c44
+")).
+Eval vm_compute in ("<<<M313>>>" ++ check (runes_of_ascii "root
+packet i8i8
+{ BodyLength `" ++ [28040; 24687; 31867; 22411]%N ++ runes_of_ascii "`, Header , int16 len @lengthOf( msg_type ) `
+` ,@leftPad/// triple
+(' '/// triple
+) @rightPad// " ++ [27880; 37322]%N ++ runes_of_ascii "
+( // a // b
+) // trailing space 
+@calculatedFrom(
+""x y"" ) repeatCount // @lengthOf(
+@calculatedFrom( /// triple
+""packet"")
+    `crlf
+line` , @lengthOf(falsey
+)  roots @lengthOf( metadata
+    )`line1
+line2` ,
+    i8 i64_
+, @tag( 4294967296)@tag( 3 ) repeat	zchar[
+1 ] lengthOf, @lengthOf(	Logon
+// `tick` ""quote"" 'q'
+// `tick` ""quote"" 'q'
+)repeat
+asx{stringy float`line1
+line2` , Pad ,
+}
+    , }
+")).
+Eval vm_compute in ("<<<M366>>>" ++ check (runes_of_ascii "  packet tag  {
+@calculatedFrom(""" ++ [28040; 24687]%N ++ runes_of_ascii """)A
+    `" ++ [233]%N ++ runes_of_ascii "`
+    ,
+    // a // b
+    match u as
+// c
+// trailing space 
+len	{ [42 , """ ++ [233]%N ++ runes_of_ascii "t" ++ [233]%N ++ runes_of_ascii """ ] : As
+42 :
+    string_
+,
+""CRC32"" :
+body , ""x y"":
+    x //
+,  [
+// `tick` ""quote"" 'q'
+// @lengthOf(
+007 , 4294967296 ,""{,}"" ,
+""""
+    , """ ++ [28040; 24687]%N ++ runes_of_ascii """ , ""it's"" , """ ++ [128512]%N ++ runes_of_ascii """
+    ] : u
+    // " ++ [128512]%N ++ runes_of_ascii " emoji
+    ,""" ++ [28040; 24687]%N ++ runes_of_ascii """  : _x,  }
+,@lengthOf(rootA) u128 `doc`
+,// " ++ [27880; 37322]%N ++ runes_of_ascii "
+} options { falsey
+=
+string
+string_=int8 ; } options
+{// c
+charz
+// c
+// trailing space 
+= ""CRC32"" }
+")).
+Eval vm_compute in ("<<<M373>>>" ++ check (runes_of_ascii "options { x =3
+    matchKey= ""a\""b"" // @lengthOf(
+leftPad	= ""packet"" ; T = zchar[ 65535 ]; } MetaData
+    MetaDataX {} MetaData // " ++ [128512]%N ++ runes_of_ascii " emoji
+repeatCount {u8x Pad	, }
+    packet
+T{ @tag( 42  ) repeat MetaDataX `{ , }`
+    // a // b
+    , // @lengthOf(
+float32 x@lengthOf( u8x  )
+`
+`
+    ,int16 matchKey @calculatedFrom( ""\n""	) `two words` , }packet packetx
+{_x
+@calculatedFrom( ""a\""b""
+)`a\`	,
+} // a // b")).
+Eval vm_compute in ("<<<M175>>>" ++ check (runes_of_ascii "packet f32a
+{
+    repeat calculatedFrom u128//	t
+,
+    T @calculatedFrom( ""a\\"" ) `crlf
+line` ,
+string /// triple
+charz, @leftPad (
+    //x
+    ) repeat
+pack // a // b
+T
+    ,	}MetaData
+charz { } packet	i8i8{A
+x ,match A
+as
+leftPad { ""abc""	: msg_type , ""a	b""
+    //	t
+    :
+    T }	,f64 i8i8
+    ,
+char charz`" ++ [233]%N ++ runes_of_ascii "`
+    // `tick` ""quote"" 'q'
+    ,} // " ++ [128512]%N ++ runes_of_ascii " emoji")).
+Eval vm_compute in ("<<<M90>>>" ++ check (runes_of_ascii "packet charz {repeat char[ 3 ]
+BodyLength,As stringy, match
+    tag as uint8x { //
+[ ""it's"" , 007
+    , 4294967296
+    // c
+    ] : uint8x ,
+}, // a // b
+@tag( 0
+)/// triple
+repeat char[	7	] u	,}
+    // packet A { u8 x, }
+    MetaData options1
+    { Z9_  _x ,	} packet BodyLength
+{} MetaData chars { float Foo,
+}")).
+Eval vm_compute in ("<<<M619>>>" ++ check (runes_of_ascii "root packet tag { }  packet MetaDataX{char[007	]
+// c
+/// triple
+asx  @calculatedFrom( ""a\""b""
+) `say ""hi""`// " ++ [27880; 37322]%N ++ runes_of_ascii "
+,  @tag(4294967296 )
+    char[1//x
+] packetx @calculatedFrom(""a\""b""
+    ) ,
+// " ++ [128512]%N ++ runes_of_ascii " emoji
+// a // b
+@calculatedFrom( @calculatedFrom(""" ++ [233]%N ++ runes_of_ascii "t" ++ [233]%N ++ runes_of_ascii """  ) repeat pack // " ++ [27880; 37322]%N ++ runes_of_ascii "
+,
+    } // c")).
+Eval vm_compute in ("<<<M480>>>" ++ check (runes_of_ascii "root root packet tag { }  packet MetaDataX{char[007	]
+// c
+/// triple
+asx  @calculatedFrom( ""a\""b""
+) `say ""hi""`// " ++ [27880; 37322]%N ++ runes_of_ascii "
+,  @tag(4294967296 )
+    char[1//x
+] packetx @calculatedFrom(""a\""b""
+    ) ,
+// " ++ [128512]%N ++ runes_of_ascii " emoji
+// a // b
+@calculatedFrom(""" ++ [233]%N ++ runes_of_ascii "t" ++ [233]%N ++ runes_of_ascii """  ) repeat pack // " ++ [27880; 37322]%N ++ runes_of_ascii "
+,
+    } // c")).
+Eval vm_compute in ("<<<M644>>>" ++ check (runes_of_ascii "root packet tag { }  packet MetaDataX{char[007	]
+// c
+/// triple
+asx  @calculatedFrom( ""a\""b""
+) `say ""hi""`// " ++ [27880; 37322]%N ++ runes_of_ascii "
+,  @tag(4294967296 )
+    char[1//x
+] packetx @calculatedFrom(""a\""b""
+    ) ,
+// " ++ [128512]%N ++ runes_of_ascii " emoji
+// a // b
+@calculatedFrom(""" ++ [233]%N ++ runes_of_ascii "t" ++ [233]%N ++ runes_of_ascii """  ) repeat pack // " ++ [27880; 37322]%N ++ runes_of_ascii "
+, ,
+    } // c")).
+Eval vm_compute in ("<<<M490>>>" ++ check (runes_of_ascii "root packet { tag }  packet MetaDataX{char[007	]
+// c
+/// triple
+asx  @calculatedFrom( ""a\""b""
+) `say ""hi""`// " ++ [27880; 37322]%N ++ runes_of_ascii "
+,  @tag(4294967296 )
+    char[1//x
+] packetx @calculatedFrom(""a\""b""
+    ) ,
+// " ++ [128512]%N ++ runes_of_ascii " emoji
+// a // b
+@calculatedFrom(""" ++ [233]%N ++ runes_of_ascii "t" ++ [233]%N ++ runes_of_ascii """  ) repeat pack // " ++ [27880; 37322]%N ++ runes_of_ascii "
+,
+    } // c")).
+Eval vm_compute in ("<<<M486>>>" ++ check (runes_of_ascii "root int16 tag { }  packet MetaDataX{char[007	]
+// c
+/// triple
+asx  @calculatedFrom( ""a\""b""
+) `say ""hi""`// " ++ [27880; 37322]%N ++ runes_of_ascii "
+,  @tag(4294967296 )
+    char[1//x
+] packetx @calculatedFrom(""a\""b""
+    ) ,
+// " ++ [128512]%N ++ runes_of_ascii " emoji
+// a // b
+@calculatedFrom(""" ++ [233]%N ++ runes_of_ascii "t" ++ [233]%N ++ runes_of_ascii """  ) repeat pack // " ++ [27880; 37322]%N ++ runes_of_ascii "
+,
+    } // c")).
+Eval vm_compute in ("<<<M606>>>" ++ check (runes_of_ascii "root packet tag { }  packet MetaDataX{char[007	]
+// c
+/// triple
+asx  @calculatedFrom( ""a\""b""
+) `say ""hi""`// " ++ [27880; 37322]%N ++ runes_of_ascii "
+,  @tag(4294967296 )
+    char[1//x
+] packetx @calculatedFrom(as
+    ) ,
+// " ++ [128512]%N ++ runes_of_ascii " emoji
+// a // b
+@calculatedFrom(""" ++ [233]%N ++ runes_of_ascii "t" ++ [233]%N ++ runes_of_ascii """  ) repeat pack // " ++ [27880; 37322]%N ++ runes_of_ascii "
+,
+    } // c")).
+Eval vm_compute in ("<<<M75>>>" ++ check (runes_of_ascii "MetaData calculatedFrom { // @lengthOf(
+tag a1
+, uint8 _x`crlf
+line`,
+// " ++ [27880; 37322]%N ++ runes_of_ascii "
+// packet A { u8 x, }
+string
+    Z9_ ,uint8x A`line1
+line2` ,char falsey , packetx Foo
+,  }
+MetaData body {
+string x_y_z``
+    , falsey zchar `line1
+line2` , } options{ }
+")).
+Eval vm_compute in ("<<<M260>>>" ++ check (runes_of_ascii "
+packet
+crc{ } options
+{ len= '0' } packet uint8x {T  charz `u8 x,` ,
+}
+    MetaData  packetx //	t
+{
 // `tick` ""quote"" 'q'
 // trailing space 
-falsey , // trailing space 
-char[ 3 ] rootA  , }
+} options
+    { Header
+    =""CRC32""
+;
+    charz =
+    string MetaDataX
+=
+true ;}
 ")).
-Eval vm_compute in ("<<<M836>>>" ++ check (runes_of_ascii "
-packet
-    uint8x { @leftPad( '\x00' ) float32 x_y_z @lengthOf( x ) `a\` ,	int32
-Header,match
-    asx as
-    string_ {"""" :
-    lengthOf, 1 : uint8x , } , repeat /// triple
-a1 { repeat
-zchar[0	] Packet , // trailing space 
-char falsey@calculatedFrom( /// triple
-""1""), }
-,
-    } // " ++ [128512]%N ++ runes_of_ascii " emoji")).
-Eval vm_compute in ("<<<M427>>>" ++ check (runes_of_ascii "packet
-    packetx { @tag( 7 ) @calculatedFrom( ""`tick`"" ) @calculatedFrom( ""a\\""
-)char[] int , @rightPad ( ' ' )	string// `tick` ""quote"" 'q'
-tag `tab	here`
-,@lengthOf(
-    asx
-)
-u8 // c
-repeatCount , @calculatedFrom(""// no comment"" )
-//x
-// trailing space 
-zchar[
-1] a1 ,}")).
-Eval vm_compute in ("<<<M1638>>>" ++ check (runes_of_ascii "packet
-//	t
-// trailing space 
-_x {
-// packet A { u8 x, }
-// c
-char[
-3
-    ] u8x @lengthOf(
-u8x ) , @calculatedFrom(""" ++ [128512]%N ++ runes_of_ascii """ // @lengthOf(
-)
-i16	Foo
-@lengthOf(	string_
-    )`doc`	, repeat	i64 metadata , @lengthOf( string_
-) i8 // c
-u  `line1
-line2` `line1
-line2`	,
+Eval vm_compute in ("<<<M1119>>>" ++ check (runes_of_ascii "// top
+packet // c0
+metadata // c1
+{ // c2
+Logon // c3
+{ // c4
+A // c5
+`" ++ [28040; 24687; 31867; 22411]%N ++ runes_of_ascii "` // c6
+, // c7
+tag // c8
+o // c9
+, // c10
+} // c11
+, // c12
+zchar // c13
+len // c14
+`// not a comment` // c15
+, // c16
+} // c17
+")).
+Eval vm_compute in ("<<<M1527>>>" ++ check (runes_of_ascii "packet u128 {
+    u8 a,
+}
+root packet Msg {
+    u8 k,
+    u24 {
+        u8 Hi,
+        u16 Lo,
+    },
+    repeat i24 {
+        u32 q,
+    },
+    u128,
+    u16 float32x,
+    string s,
 }
 ")).
-Eval vm_compute in ("<<<M1635>>>" ++ check (runes_of_ascii "packet
-//	t
-// trailing space 
-_x {
-// packet A { u8 x, }
-// c
-char[
-3
-    ] u8x @lengthOf(
-u8x ) , @calculatedFrom(""" ++ [128512]%N ++ runes_of_ascii """ // @lengthOf(
-)
-i16	Foo
-@lengthOf(	string_
-    )`doc`	, repeat	i64 metadata , @lengthOf( string_
-) i8 // c
-@leftPad  `line1
-line2`	,
-}
-")).
-Eval vm_compute in ("<<<M1498>>>" ++ check (runes_of_ascii "packet
-//	t
-// trailing space 
-_x { {
-// packet A { u8 x, }
-// c
-char[
-3
-    ] u8x @lengthOf(
-u8x ) , @calculatedFrom(""" ++ [128512]%N ++ runes_of_ascii """ // @lengthOf(
-)
-i16	Foo
-@lengthOf(	string_
-    )`doc`	, repeat	i64 metadata , @lengthOf( string_
-) i8 // c
-u  `line1
-line2`	,
-}
-")).
-Eval vm_compute in ("<<<M1664>>>" ++ check (runes_of_ascii "packet
-//	t
-// trailing space 
-_x {
-// packet A { u8 x, }
-// c
-char[
-3
-    ] u8x @lengthOf(
-u8x ) , @calculatedFrom(""" ++ [128512]%N ++ runes_of_ascii """ // @lengthOf(
-)
-i16	Foo
-@lengthOf(	string_
- #   )`doc`	, repeat	i64 metadata , @lengthOf( string_
-) i8 // c
-u  `line1
-line2`	,
-}
-")).
-Eval vm_compute in ("<<<M1589>>>" ++ check (runes_of_ascii "packet
-//	t
-// trailing space 
-_x {
-// packet A { u8 x, }
-// c
-char[
-3
-    ] u8x @lengthOf(
-u8x ) , @calculatedFrom(""" ++ [128512]%N ++ runes_of_ascii """ // @lengthOf(
-)
-i16	Foo
-@lengthOf(	string_
-    )`doc`	repeat ,	i64 metadata , @lengthOf( string_
-) i8 // c
-u  `line1
-line2`	,
-}
-")).
-Eval vm_compute in ("<<<M1642>>>" ++ check (runes_of_ascii "packet
-//	t
-// trailing space 
-_x {
-// packet A { u8 x, }
-// c
-char[
-3
-    ] u8x @lengthOf(
-u8x ) , @calculatedFrom(""" ++ [128512]%N ++ runes_of_ascii """ // @lengthOf(
-)
-i16	Foo
-@lengthOf(	string_
-    )`doc`	, repeat	i64 metadata , @lengthOf( string_
-) i8 // c
-u  `line1
-line2`	
-}
-")).
-Eval vm_compute in ("<<<M1118>>>" ++ check (runes_of_ascii "MetaData
-tag
+Eval vm_compute in ("<<<M390>>>" ++ check (runes_of_ascii "packet
     // `tick` ""quote"" 'q'
-    { u16
-    BodyLength , packetx
-f32a
-//
+    crc crc
 // packet A { u8 x, }
-, } root packet	Packet {
-    char[ 42 ]
-    // c
-    A //x
-, } packet calculatedFrom { repeat rootA { char[ 0123456789
-    ] u128,}
-, }
-")).
-Eval vm_compute in ("<<<M1652>>>" ++ check (runes_of_ascii "packet
 //	t
-// trailing space 
-_x {
-// packet A { u8 x, }
-// c
-char[
-3
-    ] u8x @lengthOf(
-u8x ) , @calculatedFrom(""" ++ [128512]%N ++ runes_of_ascii """ // @lengthOf(
-)
-i16	Foo
-@lengthOf(	string_
-    )`doc`	, repeat	i64 metadata , @lengthOf( string_
-) i8 // c
-u  `line1")).
-Eval vm_compute in ("<<<M637>>>" ++ check (runes_of_ascii "
-packet charz {
-repeat
-zchar[
-    // @lengthOf(
-    007/// triple
-]/// triple
-falsey
-    `line1
-line2` ,
-}	root packet
-    leftPad {
-x
-    metadata
-, }	packet
-rootA { char[65535
-    // c
-    ]chars , } options { body
-= ' '
-}")).
-Eval vm_compute in ("<<<M1631>>>" ++ check (runes_of_ascii "packet
-//	t
-// trailing space 
-_x {
-// packet A { u8 x, }
-// c
-char[
-3
-    ] u8x @lengthOf(
-u8x ) , @calculatedFrom(""" ++ [128512]%N ++ runes_of_ascii """ // @lengthOf(
-)
-i16	Foo
-@lengthOf(	string_
-    )`doc`	, repeat	i64 metadata , @lengthOf( string_
-)")).
-Eval vm_compute in ("<<<M4601>>>" ++ check (runes_of_ascii "
-MetaData x
-{ uint32
-u8x
-	`" ++ [28040; 24687; 31867; 22411]%N ++ runes_of_ascii "`
-,
-	}
-// packet A { u8 x, }
-	// " ++ [128512]%N ++ runes_of_ascii " emoji
-  MetaData
-
-o 
-{ }
-
-// packet A { u8 x, }
-	packet pack 
-{ // packet A { u8 x, }
-  repeat 
-zchar[
-4294967296// a // b
-		]
+{
+u32 a1 ,
+    // trailing space 
     roots
+charz //
+`two words`,	}
+    MetaData int {
+} /// triple")).
+Eval vm_compute in ("<<<M679>>>" ++ check (runes_of_ascii "root packet len // trailing space 
+{
+// " ++ [27880; 37322]%N ++ runes_of_ascii "
+//	t
+repeat 10
+] metadata	@lengthOf( o ) `crlf
+line`,
+    @rightPad
+( ' '
+) string
+    Header @calculatedFrom( ""a\\""
+    ), }
+")).
+Eval vm_compute in ("<<<M436>>>" ++ check (runes_of_ascii "packet
+    // `tick` ""quote"" 'q'
+    crc
+// packet A { u8 x, }
+//	t
+{
+u32 a1 ,
+    // trailing space 
+    roots
+charz //
+`two words`,	MetaData
+    } int {
+} /// triple")).
+Eval vm_compute in ("<<<M156>>>" ++ check (runes_of_ascii "packet asx {
+    }
+    // packet A { u8 x, }
+    options
+    { options1
+= float64 leftPad
+=true ; MetaDataX =char[00] ; roots=false }// " ++ [128512]%N ++ runes_of_ascii " emoji
+packet string_{
+    }
+
+")).
+Eval vm_compute in ("<<<M1762>>>" ++ check (runes_of_ascii "
+
+  packet 
+
+// `tick` ""quote"" 'q'
+crc  
+      // packet A { u8 x, }
+
+	//	t
+  {
+
+u32
+a1
+    ,
+	    // trailing space 
+
+	roots
+    charz 	 //
+
+  `two words`
 ,}
 ")).
-Eval vm_compute in ("<<<M925>>>" ++ check (runes_of_ascii "packet crc  {matchKey
-`tab	here`
-    ,
-    repeat f32a{ // trailing space 
-zchar  { string uint8x
-,
-repeat char[	4294967296 // trailing space 
-]
-msg_type ,} , roots{ zchar[ 7 ] u ,	},
-    uint64 chars ,} ,  }")).
-Eval vm_compute in ("<<<M1697>>>" ++ check (runes_of_ascii "options { trueish = ""`tick`"" ; ; string_= """ ++ [233]%N ++ runes_of_ascii "t" ++ [233]%N ++ runes_of_ascii """
-    // c
-    } root
-    packet body { stringy @calculatedFrom(
-""a	b"" ) `line1
-line2` , }
-packet Logon {
-    @leftPad(
-    ' ' ) //	t
-u16 string_ `u8 x,` ,
-}
-")).
-Eval vm_compute in ("<<<M1999>>>" ++ check (runes_of_ascii "MetaData
-    u { }  options {
-// c
-// @lengthOf(
-float = int8 ;rootA =false ; As =	int16 // `tick` ""quote"" 'q'
-repeatCount
-    // trailing space 
-    =
-    int16
-; u8x =
-    //	t
-    '\x00' ; } options	{")).
-Eval vm_compute in ("<<<M1788>>>" ++ check (runes_of_ascii "options { trueish = ""`tick`"" ; string_= """ ++ [233]%N ++ runes_of_ascii "t" ++ [233]%N ++ runes_of_ascii """
-    // c
-    } root
-    packet body { stringy @calculatedFrom(
-""a	b"" ) `line1
-line2` , }
-packet Logon @leftPad
-    {(
-    ' ' ) //	t
-u16 string_ `u8 x,` ,
-}
-")).
-Eval vm_compute in ("<<<M1994>>>" ++ check (runes_of_ascii "MetaData
-    u { }  options {
-// c
-// @lengthOf(
-float = int8 ;rootA =false ; As =	int16 // `tick` ""quote"" 'q'
-repeatCount
-    // trailing space 
-    =
-    int16
-; u8x =
-    //	t
-    '\x00' ; } options")).
-Eval vm_compute in ("<<<M471>>>" ++ check (runes_of_ascii "packet Header { int@lengthOf( lengthOf
-    ) , }
-    packet	Z9_ { @lengthOf( Z9_ ) repeat
-i8 lengthOf, } options {
-    rootA =  ' ' u8x= 65535 As = int8 matchKey = '\x00'
-; msg_type  =
-' ';
-    }")).
-Eval vm_compute in ("<<<M1363>>>" ++ check (runes_of_ascii "packet
-    metadata{ repeat BodyLength
-// packet A { u8 x, }
-// c
-,
-    /// triple
-    int8
-chars , u128@calculatedFrom( ""a\""b""	) `tab	here` ,
-// packet A { u8 x, }
-//x
-}
-// packet A { u8 x, }
-")).
-Eval vm_compute in ("<<<M1122>>>" ++ check (runes_of_ascii "root packet a1 {u8x{ char[ // trailing space 
-10] tag
-`` , } // " ++ [128512]%N ++ runes_of_ascii " emoji
-, } packet packetx { string crc	@calculatedFrom(""abc""	), @lengthOf( Packet ) repeat u32
-rootA , // @lengthOf(
-}
-")).
-Eval vm_compute in ("<<<M1010>>>" ++ check (runes_of_ascii "MetaData o
-//
-/// triple
-{
-    body	f32a `
-` ,
-i32 string_ `line1
-line2`, int64
-    //
-    matchKey
-    , string crc,zchar[ 4294967296	] msg_type
-    `crlf
-line`, u32 Packet ,}
-")).
-Eval vm_compute in ("<<<M189>>>" ++ check (runes_of_ascii "MetaData  msg_type	{ Packet
-// @lengthOf(
-// trailing space 
-int , char[3 ] Foo`// not a comment`
-    // `tick` ""quote"" 'q'
-    ,
-zchar[ 7
-    ]
-uint8x,
-leftPad crc `
-`, }")).
-Eval vm_compute in ("<<<M3917>>>" ++ check (runes_of_ascii "
-root
-packet matchKey{ 
-zchar[ 3
-
-    ]
-pack
-
-    @calculatedFrom(
-""a	b""  )
-    `doc`,
-
-}
-options
-
-{ }
-MetaData A
-
-{int8
-
-    msg_type
-, 
-      // c
-	  }
-
-")).
-Eval vm_compute in ("<<<M2365>>>" ++ check (runes_of_ascii "// c
-packet x { @lengthOf( metadata ) repeat lengthOf
-,a1{
-trueish trueish	,// c
-repeat//	t
-MetaDataX , } , zchar[
-    42	] rootA // `tick` ""quote"" 'q'
-,
-    }
-")).
-Eval vm_compute in ("<<<M2125>>>" ++ check (runes_of_ascii "options{
-_x
-= true
-} options
-{ o	= /// triple
-false false
-    ; chars
-= ""\n"" } root packet	Pad
-/// triple
-// packet A { u8 x, }
-{	chars
-    // a // b
-    ,}")).
-Eval vm_compute in ("<<<M2322>>>" ++ check (runes_of_ascii "// c
-packet x { @lengthOf( metadata "" ) repeat lengthOf
-,a1{
-trueish	,// c
-repeat//	t
-MetaDataX , } , zchar[
-    42	] rootA // `tick` ""quote"" 'q'
-,
-    }
-")).
-Eval vm_compute in ("<<<M304>>>" ++ check (runes_of_ascii "  packet
-    Packet { i8 MetaDataX , }
-    root packet
-    a1
-{ rootA @lengthOf( uint8x )
-    ,
-    repeatCount
-{
-char[]u , u16
-msg_type
-`a\` ,
-    }
-, }
-")).
-Eval vm_compute in ("<<<M2402>>>" ++ check (runes_of_ascii "// c
-packet x { @lengthOf( metadata ) lengthOf repeat
-,a1{
-trueish	,// c
-repeat//	t
-MetaDataX , } , zchar[
-    42	] rootA // `tick` ""quote"" 'q'
-,
-    }
-")).
-Eval vm_compute in ("<<<M1954>>>" ++ check (runes_of_ascii "MetaData
-    u { }  options {
-// c
-// @lengthOf(
-float = int8 ;rootA =false ; As =	int16 // `tick` ""quote"" 'q'
-repeatCount
-    // trailing space 
-    =")).
-Eval vm_compute in ("<<<M4364>>>" ++ check (runes_of_ascii "options {
-    packetx = zchar[4294967296];
+Eval vm_compute in ("<<<M1622>>>" ++ check (runes_of_ascii "packet A {
+    u8 a,
 }
 
-options {
+packet B {
+    u16 b,
 }
 
-MetaData uint8x {
-    char[3] o `
-    `,
-    crc string_,
-    char[] int,// trailing space 
+root packet P {
+    u8 K,
+    match K as M {
+        [1, 2] : A,
+        3 : B,
+        7 : A,
+    },
 }")).
-Eval vm_compute in ("<<<M2147>>>" ++ check (runes_of_ascii "options{
-_x
-= true
-} options
-{ o	= /// triple
-false
-    ; chars
-= ( } root packet	Pad
-/// triple
-// packet A { u8 x, }
-{	chars
-    // a // b
-    ,}")).
-Eval vm_compute in ("<<<M1343>>>" ++ check (runes_of_ascii "
-options
-{
-asx
-    =""CRC32"" ; MetaDataX// c
-= char[ 4294967296	]
-    ;
-// " ++ [27880; 37322]%N ++ runes_of_ascii "
-// trailing space 
-_x = '0'; trueish=
-""a	b"" ;	} // packet A { u8 x, }")).
-Eval vm_compute in ("<<<M1571>>>" ++ check (runes_of_ascii "packet
-//	t
-// trailing space 
-_x {
-// packet A { u8 x, }
-// c
-char[
-3
-    ] u8x @lengthOf(
-u8x ) , @calculatedFrom(""" ++ [128512]%N ++ runes_of_ascii """ // @lengthOf(
-)
-i16	Foo")).
-Eval vm_compute in ("<<<M1566>>>" ++ check (runes_of_ascii "packet
-//	t
-// trailing space 
-_x {
-// packet A { u8 x, }
-// c
-char[
-3
-    ] u8x @lengthOf(
-u8x ) , @calculatedFrom(""" ++ [128512]%N ++ runes_of_ascii """ // @lengthOf(
-)
-i16")).
-Eval vm_compute in ("<<<M3885>>>" ++ check (runes_of_ascii "
-options 
-{
-
-    u 	 // a // b
-= 42 x_y_z = ' ' 
-;
-    msg_type
-
-    =  true  ;u	=  10
-;
+Eval vm_compute in ("<<<M306>>>" ++ check (runes_of_ascii "packet
+    u128
+{ @lengthOf( options1
+)repeat int`" ++ [28040; 24687; 31867; 22411]%N ++ runes_of_ascii "` ,
+@calculatedFrom(
+    """" )
+repeat
+f32 Z9_	,
+zchar[
+007
+] msg_type
+`doc`
+    ,
 }
-options
-{ zchar	=
-uint8  ;  }// c
 ")).
-Eval vm_compute in ("<<<M3827>>>" ++ check (runes_of_ascii "packet A {
+Eval vm_compute in ("<<<M1811>>>" ++ check (runes_of_ascii "packet A {
     match k as n {
         [
-            1, 22, 007, 4, 5,
-            66, 7, 8
+            ""a"", 22, ""c c"", 4, ""e"",
+            66, ""g""
         ] : B,
         2 : C,
     },
 }")).
-Eval vm_compute in ("<<<M643>>>" ++ check (runes_of_ascii "
-packet metadata {
-// trailing space 
-// trailing space 
-@calculatedFrom(// `tick` ""quote"" 'q'
-""CRC32"" )
-stringy As ,
+Eval vm_compute in ("<<<M2010>>>" ++ check (runes_of_ascii "
+MetaData body{ i64
+
+pack  
+      // c
+  `it's` ,
+
     }
-")).
-Eval vm_compute in ("<<<M4244>>>" ++ check (runes_of_ascii "MetaData calculatedFrom {
-    crc Logon ``,
-    x u8x `line1
-        line2`,
-    i64 u128,
-    char[0123456789] packetx,
-}")).
-Eval vm_compute in ("<<<M3335>>>" ++ check (runes_of_ascii "root packet matchKey { zchar[ 3 ] pack @calculatedFrom( ""a	b"" ) `doc`
+
+packet
+    stringy
+    {
+
+    int16  calculatedFrom,
+
+    } ")).
+Eval vm_compute in ("<<<M1238>>>" ++ check (runes_of_ascii "root packet matchKey { zchar[ 3 ] pack
 // c
-, } options { } MetaData A { int8 msg_type , }")).
-Eval vm_compute in ("<<<M1408>>>" ++ check (runes_of_ascii "
-packet
-    falsey { { Header@calculatedFrom(""packet""  ) , char[
-    0123456789 ] packetx
-    , } // `tick` ""quote"" 'q'")).
-Eval vm_compute in ("<<<M4315>>>" ++ check (runes_of_ascii "  options
-
-    {	Pad=	zchar[10
-
-    ];
-a1  //
-	=	""1""  stringy
-=""{,}"" ; uint8x='0'  BodyLength = 1 ; //	t
-    }
-")).
-Eval vm_compute in ("<<<M1432>>>" ++ check (runes_of_ascii "
-packet
-    falsey { Header@calculatedFrom(""packet""  )  char[
-    0123456789 ] packetx
-    , } // `tick` ""quote"" 'q'")).
-Eval vm_compute in ("<<<M3821>>>" ++ check (runes_of_ascii "
-packet
-
-    o
-    // c
-	{
-repeat
-
-    Logon
-
-uint8x
-
-,
-}
-options{asx=
-    zchar[ 3] stringy = '\x00'}
-
-")).
-Eval vm_compute in ("<<<M2187>>>" ++ check (runes_of_ascii "options{
-_x
-= true
-} options
-{ o	= /// triple
-false
-    ; chars
-= ""\n"" } root packet	Pad
-/// triple
-// packe")).
-Eval vm_compute in ("<<<M4437>>>" ++ check (runes_of_ascii "options {
-    Pad = zchar[10];
-    a1 = ""1""
-    stringy = ""{,}"";
-    uint8x = '0'
-    BodyLength = 1;//	t
+@calculatedFrom( ""a	b"" ) `doc` , } options { } MetaData A { int8 msg_type , }")).
+Eval vm_compute in ("<<<M1931>>>" ++ check (runes_of_ascii "packet A {
+    Inner {
+        u8 x `a
+        b`,
+        Deep {
+            u8 y `a
+            b`,
+        },
+    },
 }")).
-Eval vm_compute in ("<<<M107>>>" ++ check (runes_of_ascii "
-packet a1{ match /// triple
-T as pack
-{007 : Header ,} , calculatedFrom	, } MetaData
-options1
-    { }")).
-Eval vm_compute in ("<<<M1351>>>" ++ check (runes_of_ascii "options { options1 =
-char[
-00
-]
-    ; len=
-""" ++ [128512]%N ++ runes_of_ascii """ ; a1
-    =
-    42
-    Header =
-' '}packet Foo { }
-
-")).
-Eval vm_compute in ("<<<M926>>>" ++ check (runes_of_ascii "packet u{ repeat tag chars
-,
-//	t
-// a // b
-u16 zchar
-/// triple
-//	t
-,
-uint8 falsey
-    `doc` ,
+Eval vm_compute in ("<<<M1744>>>" ++ check (runes_of_ascii "packet A {
+    u16 len @lengthOf(body) `
+    x`,
+    u32 crc @calculatedFrom(""CRC32"") `
+    x`,
+    string body,
+}")).
+Eval vm_compute in ("<<<M968>>>" ++ check (runes_of_ascii "packet A {
+    match k as n {
+        ""\
+"" : B,
+        [""\
+"", 1] : C,
+        [1,2,3,4,5,""\
+""] : D,
+    },
+}")).
+Eval vm_compute in ("<<<M1474>>>" ++ check (runes_of_ascii "options {
+    LittleEndian = true;
+}
+root packet P {
+    u16 a,
+    u32 Sum @calculatedFrom(""CR\
+C32""),
 }
 ")).
-Eval vm_compute in ("<<<M4376>>>" ++ check (runes_of_ascii "options {
+Eval vm_compute in ("<<<M1638>>>" ++ check (runes_of_ascii "packet chars {
 }
 
-options {
-    BodyLength = u16
-    Header = f64;
-    u128 = true;
-}// a // b@leftpad")).
-Eval vm_compute in ("<<<M3799>>>" ++ check (runes_of_ascii "
-packet	A	{ 
-@leftPad
-
-    (
-
-) 
-char[ 4 ] x , 
-@rightPad
-    (	)  zchar[2
-	]
-    y
-    , } ")).
-Eval vm_compute in ("<<<M809>>>" ++ check (runes_of_ascii "
-options  {u =	uint16
-i8i8 =i8 ; string_ = false ;asx= true lengthOf
-=
-0123456789
-    ;
-}
-")).
-Eval vm_compute in ("<<<M3484>>>" ++ check (runes_of_ascii "
+packet MetaDataX {
+    // c
+    @tag(42)
+    i16 string_,
+    repeat x `say ""hi""`,
+}")).
+Eval vm_compute in ("<<<M2024>>>" ++ check (runes_of_ascii "packet A {
+    Inner {
+        match k as n {
+            [1, 22, 007, 4] : B,
+        },
+    },
+}")).
+Eval vm_compute in ("<<<M881>>>" ++ check (runes_of_ascii "packet A {
+  match k as n {
+    [1, 22, ""c c"", 4, 5, ""f"", 7, 8, ""i"", 10] : B,
+    2 : C
+  },
+}")).
+Eval vm_compute in ("<<<M1395>>>" ++ check (runes_of_ascii "
 // c
 packet chars { } packet MetaDataX { @tag( 42 ) i16 string_ , repeat x `say ""hi""` , }")).
-Eval vm_compute in ("<<<M3283>>>" ++ check (runes_of_ascii "MetaData float { float64 charz `
-` , } // c
-root packet chars { @rightPad ( '0' ) Foo , }")).
-Eval vm_compute in ("<<<M3494>>>" ++ check (runes_of_ascii "packet chars { } packet
+Eval vm_compute in ("<<<M1197>>>" ++ check (runes_of_ascii "MetaData float { float64 charz `
+` , } root
 // c
-MetaDataX { @tag( 42 ) i16 string_ , repeat x `say ""hi""` , }")).
-Eval vm_compute in ("<<<M2213>>>" ++ check (runes_of_ascii "options
-{ { } options { BodyLength= u16 Header= f64 ; u128 =
-    true
-    ; } // a // b")).
-Eval vm_compute in ("<<<M2301>>>" ++ check (runes_of_ascii "options
-{ } options { BodyLength= u16 Header= f64 ; u128 =
-   | true
-    ; } // a // b")).
-Eval vm_compute in ("<<<M2243>>>" ++ check (runes_of_ascii "options
-{ } options { BodyLength= Header u16= f64 ; u128 =
-    true
-    ; } // a // b")).
-Eval vm_compute in ("<<<M3234>>>" ++ check (runes_of_ascii "packet metadata { Logon { A `" ++ [28040; 24687; 31867; 22411]%N ++ runes_of_ascii "` , tag o ,
+packet chars { @rightPad ( '0' ) Foo , }")).
+Eval vm_compute in ("<<<M1408>>>" ++ check (runes_of_ascii "packet chars { } packet MetaDataX { // c
+@tag( 42 ) i16 string_ , repeat x `say ""hi""` , }")).
+Eval vm_compute in ("<<<M275>>>" ++ check (runes_of_ascii "options {BodyLength=	""abc"" ;
+int	=
+""""
+; chars
+    = true	body
+    =
 // c
-} , zchar len `// not a comment` , }")).
-Eval vm_compute in ("<<<M2944>>>" ++ check (runes_of_ascii "packet A {
-  match k as n {
-    [1, 22, ""c c"", 4, 5, ""f"", 7, 8] : B,
-    2 : C
-  },
-}")).
-Eval vm_compute in ("<<<M3457>>>" ++ check (runes_of_ascii "packet o { repeat Logon uint8x , } options { asx = zchar[ 3 ] // c
-stringy = '\x00' }")).
-Eval vm_compute in ("<<<M1386>>>" ++ check (runes_of_ascii "
-packet msg_type { } MetaData
-leftPad { int32
-calculatedFrom`
-`  ,
-    } /// triple")).
-Eval vm_compute in ("<<<M3400>>>" ++ check (runes_of_ascii "MetaData body { i64 // c
-pack `it's` , } packet stringy { int16 calculatedFrom , }")).
-Eval vm_compute in ("<<<M2234>>>" ++ check (runes_of_ascii "options
-{ } options { match= u16 Header= f64 ; u128 =
-    true
-    ; } // a // b")).
-Eval vm_compute in ("<<<M2908>>>" ++ check (runes_of_ascii "packet A {
-  match k as n {
-    [""a"", ""bb"", 007, ""d"", ""e""] : B
-    2 : C
-  },
-}")).
-Eval vm_compute in ("<<<M2901>>>" ++ check (runes_of_ascii "packet A {
-  match k as n {
-    [1, ""bb"", 007, ""d"", 5] : B,
-    2 : C
-  },
-}")).
-Eval vm_compute in ("<<<M2974>>>" ++ check (runes_of_ascii "packet A { Inner { match k as n { [1,22,007,4,5,66,7,8,9,10] : B, }, }, }")).
-Eval vm_compute in ("<<<M3756>>>" ++ check (runes_of_ascii "  root packet
-    i8i8
-{ @lengthOf( Packet
-)
-u32
-
-    u8x ,
-
-    }
+//
+'\x00'
+}
 ")).
-Eval vm_compute in ("<<<M2879>>>" ++ check (runes_of_ascii "packet A {
+Eval vm_compute in ("<<<M1138>>>" ++ check (runes_of_ascii "packet metadata { Logon { A `" ++ [28040; 24687; 31867; 22411]%N ++ runes_of_ascii "` , // c
+tag o , } , zchar len `// not a comment` , }")).
+Eval vm_compute in ("<<<M1343>>>" ++ check (runes_of_ascii "packet o
+// c
+{ repeat Logon uint8x , } options { asx = zchar[ 3 ] stringy = '\x00' }")).
+Eval vm_compute in ("<<<M1375>>>" ++ check (runes_of_ascii "packet o { repeat Logon uint8x , } options { asx = zchar[ 3 ] stringy = '\x00'
+// c
+}")).
+Eval vm_compute in ("<<<M1303>>>" ++ check (runes_of_ascii "// c
+MetaData body { i64 pack `it's` , } packet stringy { int16 calculatedFrom , }")).
+Eval vm_compute in ("<<<M1653>>>" ++ check (runes_of_ascii "
+packet
+    // c
+
+x 
+{
+
+    @rightPad
+
+( )
+repeat roots Logon
+
+    `doc`,  }")).
+Eval vm_compute in ("<<<M835>>>" ++ check (runes_of_ascii "packet A {
+  match k as n {
+    [1, 22, 007, 4, 5, 66, 7] : B
+    2 : C
+  },
+}")).
+Eval vm_compute in ("<<<M784>>>" ++ check (runes_of_ascii "packet A {
+  match k as n {
+    [""a"", ""bb"", ""c c""] : B,
+    2 : C
+  },
+}")).
+Eval vm_compute in ("<<<M790>>>" ++ check (runes_of_ascii "packet A {
   match k as n {
     [1, 22, ""c c""] : B,
     2 : C
   },
 }")).
-Eval vm_compute in ("<<<M1388>>>" ++ check (runes_of_ascii "// trailing space 
-MetaData body { int32
-    MetaDataX
-, As x ,}")).
-Eval vm_compute in ("<<<M3002>>>" ++ check (runes_of_ascii "packet A {
-    B b `a
-b`,
-    B `a
-b`,
-    repeat B bs `a
-b`,
+Eval vm_compute in ("<<<M779>>>" ++ check (runes_of_ascii "packet A {
+  match k as n {
+    [""a"", 22] : B,
+    2 : C
+  },
 }")).
-Eval vm_compute in ("<<<M1725>>>" ++ check (runes_of_ascii "options { trueish = ""`tick`"" ; string_= """ ++ [233]%N ++ runes_of_ascii "t" ++ [233]%N ++ runes_of_ascii """
-    // c
-    }")).
-Eval vm_compute in ("<<<M2765>>>" ++ check (runes_of_ascii "@tag( zchar[ @tag( false @leftPad options @tag( repeat f32")).
-Eval vm_compute in ("<<<M2275>>>" ++ check (runes_of_ascii "options
-{ } options { BodyLength= u16 Header= f64 ; u128")).
-Eval vm_compute in ("<<<M1894>>>" ++ check (runes_of_ascii "MetaData
-    u { }  options {
+Eval vm_compute in ("<<<M1298>>>" ++ check (runes_of_ascii "packet x { @rightPad ( ) repeat roots Logon `doc` , } // c
+")).
+Eval vm_compute in ("<<<M1296>>>" ++ check (runes_of_ascii "packet x { @rightPad ( ) repeat roots Logon `doc` , // c
+}")).
+Eval vm_compute in ("<<<M958>>>" ++ check (runes_of_ascii "MetaData M {
+    u8 x `tab
+	x`,
+    T t `tab
+	x`,
+}")).
+Eval vm_compute in ("<<<M85>>>" ++ check (runes_of_ascii "
+MetaData f32a { char[ 42
+    ] zchar
+, //x
+}")).
+Eval vm_compute in ("<<<M1099>>>" ++ check (runes_of_ascii "
 // c
-// @lengthOf(
-float")).
-Eval vm_compute in ("<<<M537>>>" ++ check (runes_of_ascii "
-MetaData u
-{} packet Header
-{ i64 Logon ``	, }
-")).
-Eval vm_compute in ("<<<M1156>>>" ++ check (runes_of_ascii "
-options {
-    u8x// @lengthOf(
-=
-    false }
+root packet u128 { chars `it's` , }")).
+Eval vm_compute in ("<<<M522>>>" ++ check (runes_of_ascii "root packet tag { }  packet MetaDataX{")).
+Eval vm_compute in ("<<<M1854>>>" ++ check (runes_of_ascii "
+MetaData
 
-")).
-Eval vm_compute in ("<<<M1654>>>" ++ check (runes_of_ascii "packet
-//	t
-// trailing space 
-_x {
-// packet")).
-Eval vm_compute in ("<<<M2855>>>" ++ check (runes_of_ascii ": ( i16 u16 char[ false int8 char i64 int64")).
-Eval vm_compute in ("<<<M448>>>" ++ check (runes_of_ascii "  MetaData chars { len metadata ,
+    o
+{  // c
+    }")).
+Eval vm_compute in ("<<<M993>>>" ++ check (runes_of_ascii "packet A {
+ u8 x `d" ++ [5760]%N ++ runes_of_ascii "`, // c" ++ [5760]%N ++ runes_of_ascii "
+}")).
+Eval vm_compute in ("<<<M942>>>" ++ check (runes_of_ascii "packet A {
+    u8 x `x
+`,
+}")).
+Eval vm_compute in ("<<<M1853>>>" ++ check (runes_of_ascii "packet u8x {
+    //	t
+}")).
+Eval vm_compute in ("<<<M1388>>>" ++ check (runes_of_ascii "MetaData o {
+// c
+}")).
+Eval vm_compute in ("<<<M1034>>>" ++ check (runes_of_ascii "packet A {
+}// c 	")).
+Eval vm_compute in ("<<<M2127>>>" ++ check (runes_of_ascii "options
+{
     }
 ")).
-Eval vm_compute in ("<<<M1097>>>" ++ check (runes_of_ascii "// " ++ [27880; 37322]%N ++ runes_of_ascii "
-packet
-    Header {
-}
-// " ++ [128512]%N ++ runes_of_ascii " emoji
-")).
-Eval vm_compute in ("<<<M2801>>>" ++ check (runes_of_ascii "u64 { @lengthOf( root false i8 repeat")).
-Eval vm_compute in ("<<<M1356>>>" ++ check (runes_of_ascii "packet
-trueish	{ uint16 chars , }
-")).
-Eval vm_compute in ("<<<M3174>>>" ++ check (runes_of_ascii "packet A { @tag( // a
- 1 ) u8 x, }")).
-Eval vm_compute in ("<<<M2776>>>" ++ check (runes_of_ascii "kt*o ,Ndx:NTU=^7""XUGU%zgi5(X*Kwj")).
-Eval vm_compute in ("<<<M1705>>>" ++ check (runes_of_ascii "options { trueish = ""`tick`"" ;")).
-Eval vm_compute in ("<<<M1085>>>" ++ check (runes_of_ascii "options { pack  =  false
-;
-}
-")).
-Eval vm_compute in ("<<<M1884>>>" ++ check (runes_of_ascii "MetaData
-    u { }  options")).
-Eval vm_compute in ("<<<M2798>>>" ++ check (runes_of_ascii "3" ++ [65533]%N ++ runes_of_ascii "XL" ++ [65533; 65533]%N ++ runes_of_ascii "~gO+" ++ [65533]%N ++ runes_of_ascii "x\" ++ [127; 65533; 4]%N ++ runes_of_ascii "`" ++ [24]%N ++ runes_of_ascii "i" ++ [31; 65533; 65533; 65533]%N ++ runes_of_ascii "R" ++ [65533; 65533]%N)).
-Eval vm_compute in ("<<<M4232>>>" ++ check (runes_of_ascii "
-MetaData 
-o { 
-}  // c
-")).
-Eval vm_compute in ("<<<M4222>>>" ++ check (runes_of_ascii "packet A {
-    x `d`,
-}")).
-Eval vm_compute in ("<<<M3937>>>" ++ check (runes_of_ascii "root packet Logon {
-}")).
-Eval vm_compute in ("<<<M941>>>" ++ check (runes_of_ascii "packet packetx {
-}")).
-Eval vm_compute in ("<<<M610>>>" ++ check (runes_of_ascii "root packet A { }
-")).
-Eval vm_compute in ("<<<M3116>>>" ++ check (runes_of_ascii "// c" ++ [11]%N ++ runes_of_ascii "
-packet A {
-}")).
-Eval vm_compute in ("<<<M3068>>>" ++ check (runes_of_ascii "packet A {
-}// c" ++ [160]%N)).
-Eval vm_compute in ("<<<M3717>>>" ++ check (runes_of_ascii "MetaData Pad {
-}")).
-Eval vm_compute in ("<<<M2413>>>" ++ check (runes_of_ascii "// c
-packet x")).
-Eval vm_compute in ("<<<M2854>>>" ++ check (runes_of_ascii "( match , {")).
-Eval vm_compute in ("<<<M2767>>>" ++ check ([65533]%N ++ runes_of_ascii "d" ++ [65533; 65533; 65533]%N ++ runes_of_ascii "R" ++ [27; 8]%N)).
-Eval vm_compute in ("<<<M2463>>>" ++ check (runes_of_ascii "repeat")).
-Eval vm_compute in ("<<<M2514>>>" ++ check (runes_of_ascii """ab""")).
-Eval vm_compute in ("<<<M2479>>>" ++ check (runes_of_ascii "'  '")).
-Eval vm_compute in ("<<<M2509>>>" ++ check (runes_of_ascii """a\")).
-Eval vm_compute in ("<<<M2496>>>" ++ check (runes_of_ascii "@@")).
-Eval vm_compute in ("<<<M2683>>>" ++ check (runes_of_ascii "")).
+Eval vm_compute in ("<<<M1683>>>" ++ check (runes_of_ascii "
+// c" ++ [6158]%N)).
+Eval vm_compute in ("<<<M2100>>>" ++ check (runes_of_ascii "// c")).
